@@ -367,4 +367,2248 @@ theorem parseBinary_more (f k : Nat) (t : List Char) (hn : NoFuel (parseBinary f
   | zero => rfl
   | succ k ih => rw [← Nat.add_assoc, parseBinary_step (f + k) t (by rw [ih]; exact hn), ih]
 
+
+/-! ## blanks and the scanners -/
+
+/-- a run of white space (`\s` of the token patterns) -/
+def Blank (ws : List Char) : Prop := ∀ c ∈ ws, isPySpace c = true
+
+/-- the white space of the line scanners (`Text.isSpace`) and of the token scanners (`ExprScan.isPySpace`) is the same
+set of 29 code points -/
+theorem isPySpace_eq_isSpace (c : Char) : isPySpace c = Text.isSpace c := rfl
+
+theorem blank_of_allSpace {ws : List Char} (h : Text.allSpace ws = true) : Blank ws := by
+  intro c hc
+  simp only [Text.allSpace, List.all_eq_true] at h
+  exact h c hc
+
+theorem Blank.nil : Blank [] := fun _ h => by cases h
+
+theorem Blank.append {a b : List Char} (ha : Blank a) (hb : Blank b) : Blank (a ++ b) := by
+  intro c hc; rcases List.mem_append.mp hc with h | h
+  · exact ha c h
+  · exact hb c h
+
+theorem blank_contains {ws : List Char} (h : Blank ws) {c : Char} (hc : isPySpace c = false) : ws.contains c = false := by
+  cases hb : ws.contains c with
+  | false => rfl
+  | true =>
+    have := h c (by simpa using hb)
+    rw [hc] at this; cases this
+
+theorem skipWs_blank_append {ws : List Char} (h : Blank ws) (t : List Char) : skipWs (ws ++ t) = skipWs t :=
+  List.dropWhile_append_of_pos h
+
+theorem skipWs_blank {ws : List Char} (h : Blank ws) : skipWs ws = [] := by
+  have := skipWs_blank_append h []
+  simpa [skipWs] using this
+
+theorem skipWs_idem (t : List Char) : skipWs (skipWs t) = skipWs t := dropWhile_idem _ _
+
+theorem skipWs_nonblank {d : Char} (r : List Char) (h : isPySpace d = false) : skipWs (d :: r) = d :: r := by
+  simp [skipWs, h]
+
+theorem skipWs_cons_blank {d : Char} (r : List Char) (h : isPySpace d = true) : skipWs (d :: r) = skipWs r := by
+  simp [skipWs, h]
+
+theorem skipWs_head {t r : List Char} {d : Char} (h : skipWs t = d :: r) : isPySpace d = false :=
+  dropWhile_head_not _ h
+
+theorem skipWs_length_le (t : List Char) : (skipWs t).length ≤ t.length :=
+  (List.dropWhile_sublist _).length_le
+
+/-- the scanner begins with `\s*` -/
+def SkipsWs {β : Type} (sc : List Char → Option β) : Prop := ∀ t, sc t = sc (skipWs t)
+
+/-- a successful scan consumes at least one character behind the leading white space -/
+def Consumes {α : Type} (sc : List Char → Option (α × List Char)) : Prop :=
+  ∀ t x r, sc t = some (x, r) → r.length < (skipWs t).length
+
+/-- the rest-only scanners, as scanners with a trivial value -/
+def unitSc (sc : List Char → Option (List Char)) (t : List Char) : Option (Unit × List Char) := (sc t).map (fun r => ((), r))
+
+theorem ORel1_of_unit {R : List Char → List Char → Prop} {sc : List Char → Option (List Char)} {t t' : List Char}
+    (h : ORel R (unitSc sc t) (unitSc sc t')) : ORel1 R (sc t) (sc t') := by
+  unfold unitSc at h
+  cases h1 : sc t <;> cases h2 : sc t' <;> simp_all [ORel, ORel1]
+
+theorem ORel.mono {α : Type} {R S : List Char → List Char → Prop} (hRS : ∀ a b, R a b → S a b)
+    {x y : Option (α × List Char)} (h : ORel R x y) : ORel S x y := by
+  cases x <;> cases y <;> simp only [ORel] at h ⊢
+  exact ⟨h.1, hRS _ _ h.2⟩
+
+/-! ### each scanner begins with `\s*` and consumes something -/
+
+theorem stripPrefix_length : ∀ (p t r : List Char), stripPrefix? p t = some r → r.length + p.length = t.length
+  | [], t, r, h => by simp [stripPrefix?] at h; subst h; rfl
+  | _ :: _, [], r, h => by simp [stripPrefix?] at h
+  | a :: ps, c :: t, r, h => by
+    simp only [stripPrefix?] at h
+    split at h
+    · have := stripPrefix_length ps t r h; simp; omega
+    · cases h
+
+theorem firstAlt_length {α : Type} : ∀ (alts : List (List Char × α)) (t : List Char) (a : α) (r : List Char),
+    (∀ p ∈ alts, p.1 ≠ []) → firstAlt alts t = some (a, r) → r.length < t.length
+  | [], _, _, _, _, h => by simp [firstAlt] at h
+  | (p, b) :: rest, t, a, r, hne, h => by
+    simp only [firstAlt] at h
+    split at h
+    · rename_i r' hs
+      simp only [Option.some.injEq, Prod.mk.injEq] at h
+      obtain ⟨_, rfl⟩ := h
+      have := stripPrefix_length p t _ hs
+      have hp : p ≠ [] := hne (p, b) (by simp)
+      have : 0 < p.length := List.length_pos_iff.mpr hp
+      omega
+    · exact firstAlt_length rest t a r (fun q hq => hne q (List.mem_cons_of_mem _ hq)) h
+
+theorem skips_binOp : SkipsWs scanBinOp := fun t => by simp only [scanBinOp, skipWs_idem]
+theorem skips_unOp : SkipsWs scanUnaryOp := fun t => by simp only [scanUnaryOp, skipWs_idem]
+theorem skips_char (c : Char) : SkipsWs (unitSc (scanChar c)) := fun t => by simp only [unitSc, scanChar, skipWs_idem]
+theorem skips_funcOpen : SkipsWs scanFuncOpen := fun t => by simp only [scanFuncOpen, skipWs_idem]
+theorem skips_number : SkipsWs scanNumber := fun t => by simp only [scanNumber, skipWs_idem]
+theorem skips_string (q : Char) : SkipsWs (scanString q) := fun t => by simp only [scanString, skipWs_idem]
+theorem skips_variable : SkipsWs scanVariable := fun t => by simp only [scanVariable, skipWs_idem]
+theorem skips_variableEx : SkipsWs scanVariableEx := fun t => by simp only [scanVariableEx, skipWs_idem]
+
+theorem consumes_binOp : Consumes scanBinOp := fun t x r h =>
+  firstAlt_length binOpAlts _ x r (by decide) h
+
+theorem consumes_unOp : Consumes scanUnaryOp := fun t x r h =>
+  firstAlt_length unOpAlts _ x r (by decide) h
+
+theorem consumes_char (c : Char) : Consumes (unitSc (scanChar c)) := by
+  intro t x r h
+  simp only [unitSc, scanChar] at h
+  split at h
+  · rename_i d r' hs
+    rw [hs]
+    split at h
+    · simp at h; subst h; simp
+    · simp at h
+  · simp at h
+
+theorem dropWhile_length_le {α : Type} (p : α → Bool) (l : List α) : (l.dropWhile p).length ≤ l.length :=
+  (List.dropWhile_sublist _).length_le
+
+theorem consumes_funcOpen : Consumes scanFuncOpen := by
+  intro t x r h
+  simp only [scanFuncOpen] at h
+  split at h
+  · rename_i c r' hs
+    rw [hs]
+    split at h
+    · split at h
+      · rename_i d r2 hs2
+        split at h
+        · simp only [Option.some.injEq, Prod.mk.injEq] at h
+          obtain ⟨_, rfl⟩ := h
+          have h1 := skipWs_length_le (List.dropWhile isWord r')
+          have h2 := dropWhile_length_le isWord r'
+          rw [hs2] at h1
+          simp at h1 ⊢; omega
+        · cases h
+      · cases h
+    · cases h
+  · cases h
+
+theorem consumes_variable : Consumes scanVariable := by
+  intro t x r h
+  simp only [scanVariable] at h
+  split at h
+  · rename_i c r' hs
+    rw [hs]
+    split at h
+    · simp only [Option.some.injEq, Prod.mk.injEq] at h
+      obtain ⟨_, rfl⟩ := h
+      have h2 := dropWhile_length_le isWord r'
+      simp; omega
+    · cases h
+  · cases h
+
+theorem scanSign_length (t : List Char) : (scanSign t).2.length ≤ t.length := by
+  cases t with
+  | nil => simp [scanSign]
+  | cons c r =>
+    simp only [scanSign]
+    split
+    · simp
+    · split <;> simp
+
+theorem scanFrac_length (t : List Char) : (scanFrac t).2.length ≤ t.length := by
+  cases t with
+  | nil => simp [scanFrac]
+  | cons c r =>
+    simp only [scanFrac]; split
+    · have := dropWhile_length_le isDigit r; simp; omega
+    · simp
+
+theorem scanExp_length (t : List Char) : (scanExp t).2.length ≤ t.length := by
+  unfold scanExp
+  split
+  · rename_i c s r
+    have := dropWhile_length_le isDigit r
+    simp only []
+    repeat' split
+    all_goals simp
+    all_goals omega
+  · simp
+
+theorem consumes_number : Consumes scanNumber := by
+  intro t x r h
+  simp only [scanNumber] at h
+  split at h
+  · cases h
+  · rename_i hip
+    simp only [Option.some.injEq, Prod.mk.injEq] at h
+    obtain ⟨_, rfl⟩ := h
+    have h1 := scanSign_length (skipWs t)
+    have h2 : ((scanSign (skipWs t)).2.dropWhile isDigit).length < (scanSign (skipWs t)).2.length := by
+      have := (List.takeWhile_append_dropWhile (p := isDigit) (l := (scanSign (skipWs t)).2))
+      have hl := congrArg List.length this
+      simp only [List.length_append] at hl
+      have : 0 < ((scanSign (skipWs t)).2.takeWhile isDigit).length := by
+        apply List.length_pos_iff.mpr
+        intro h0; rw [h0] at hip; simp at hip
+      omega
+    have h3 := scanFrac_length ((scanSign (skipWs t)).2.dropWhile isDigit)
+    have h4 := scanExp_length (scanFrac ((scanSign (skipWs t)).2.dropWhile isDigit)).2
+    omega
+
+/-! ### string literals and bracketed names: what they consume does not depend on what follows, except through
+"is there another closing delimiter further on" (the engine's backtracking) -/
+
+theorem strBody_q (q : Char) (t : List Char) : strBody q (q :: t) = some ([], t) := by
+  rw [strBody.eq_def]; simp
+
+theorem strBody_esc (q d : Char) (t' : List Char) (hne : ¬ '\\' = q) : strBody q ('\\' :: d :: t') =
+    if (d = '\\' || d = q) && t'.contains q then (strBody q t').map (fun p => ('\\' :: d :: p.1, p.2))
+    else (strBody q (d :: t')).map (fun p => ('\\' :: p.1, p.2)) := by
+  rw [strBody.eq_def]; simp [hne]
+
+theorem strBody_other (q c : Char) (t : List Char) (h1 : ¬ c = q) (h2 : ¬ c = '\\') :
+    strBody q (c :: t) = (strBody q t).map (fun p => (c :: p.1, p.2)) := by
+  rw [strBody.eq_def]; simp [h1, h2]
+
+/-- a matched string body is `raw` followed by the closing quote, and the same body is matched in front of any other rest
+that agrees on "contains another quote" -/
+theorem strBody_local (q : Char) : ∀ (x raw rest : List Char), strBody q x = some (raw, rest) →
+    x = raw ++ q :: rest ∧
+      ∀ rest', rest'.contains q = rest.contains q → strBody q (raw ++ q :: rest') = some (raw, rest') := by
+  intro x
+  fun_induction strBody q x with
+  | case1 => intro raw rest h; cases h
+  | case2 t =>
+    intro raw rest h
+    simp only [Option.some.injEq, Prod.mk.injEq] at h
+    obtain ⟨rfl, rfl⟩ := h
+    exact ⟨rfl, fun rest' _ => strBody_q q rest'⟩
+  | case3 d t' hcond hne ih =>
+    intro raw rest h
+    simp only [Option.map_eq_some_iff] at h
+    obtain ⟨⟨raw1, rest1⟩, hp, heq⟩ := h
+    simp only [Prod.mk.injEq] at heq
+    obtain ⟨rfl, rfl⟩ := heq
+    obtain ⟨ht, hl⟩ := ih raw1 rest1 hp
+    refine ⟨by rw [ht]; rfl, fun rest' hc => ?_⟩
+    have hc2 : (raw1 ++ q :: rest').contains q = true := by simp
+    simp only [Bool.and_eq_true] at hcond
+    have : ((decide (d = '\\') || decide (d = q)) && (raw1 ++ q :: rest').contains q) = true := by
+      rw [hc2, hcond.1]; rfl
+    simp only [List.cons_append]
+    rw [strBody_esc q d _ hne, if_pos this, hl rest' hc]; rfl
+  | case4 d r hcond hne ih =>
+    intro raw rest h
+    simp only [Option.map_eq_some_iff] at h
+    obtain ⟨⟨raw1, rest1⟩, hp, heq⟩ := h
+    simp only [Prod.mk.injEq] at heq
+    obtain ⟨rfl, rfl⟩ := heq
+    obtain ⟨ht, hl⟩ := ih raw1 rest1 hp
+    refine ⟨by rw [ht]; rfl, fun rest' hc => ?_⟩
+    cases raw1 with
+    | nil =>
+      simp only [List.nil_append, List.cons.injEq] at ht
+      obtain ⟨rfl, rfl⟩ := ht
+      have : ¬ ((decide (d = '\\') || decide (d = d)) && rest'.contains d) = true := by
+        rw [hc]; exact hcond
+      simp only [List.cons_append, List.nil_append]
+      rw [strBody_esc d d _ hne, if_neg this, strBody_q]; rfl
+    | cons a raw2 =>
+      simp only [List.cons_append, List.cons.injEq] at ht
+      obtain ⟨rfl, rfl⟩ := ht
+      have hd : (decide (d = '\\') || decide (d = q)) = false := by
+        cases hb : (decide (d = '\\') || decide (d = q)) with
+        | false => rfl
+        | true => exfalso; apply hcond; rw [hb]; simp
+      have : ¬ ((decide (d = '\\') || decide (d = q)) && (raw2 ++ q :: rest').contains q) = true := by
+        rw [hd]; simp
+      have h2 := hl rest' hc
+      simp only [List.cons_append] at h2 ⊢
+      rw [strBody_esc q d _ hne, if_neg this, h2]; rfl
+  | case5 => intro raw rest h; cases h
+  | case6 c t hcq hcb ih =>
+    intro raw rest h
+    simp only [Option.map_eq_some_iff] at h
+    obtain ⟨⟨raw1, rest1⟩, hp, heq⟩ := h
+    simp only [Prod.mk.injEq] at heq
+    obtain ⟨rfl, rfl⟩ := heq
+    obtain ⟨ht, hl⟩ := ih raw1 rest1 hp
+    refine ⟨by rw [ht]; rfl, fun rest' hc => ?_⟩
+    simp only [List.cons_append]
+    rw [strBody_other q c _ hcq hcb, hl rest' hc]; rfl
+
+theorem bracketBody_close (t : List Char) : bracketBody (']' :: t) = some ([], t) := by
+  rw [bracketBody.eq_def]; simp
+
+theorem bracketBody_esc (d : Char) (t' : List Char) : bracketBody ('\\' :: d :: t') =
+    if d = ']' && t'.contains ']' then (bracketBody t').map (fun p => ('\\' :: d :: p.1, p.2))
+    else (bracketBody (d :: t')).map (fun p => ('\\' :: p.1, p.2)) := by
+  rw [bracketBody.eq_def]; simp
+
+theorem bracketBody_other (c : Char) (t : List Char) (h1 : ¬ c = ']') (h2 : ¬ c = '\\') :
+    bracketBody (c :: t) = (bracketBody t).map (fun p => (c :: p.1, p.2)) := by
+  rw [bracketBody.eq_def]; simp [h1, h2]
+
+theorem bracketBody_local : ∀ (x raw rest : List Char), bracketBody x = some (raw, rest) →
+    x = raw ++ ']' :: rest ∧
+      ∀ rest', rest'.contains ']' = rest.contains ']' → bracketBody (raw ++ ']' :: rest') = some (raw, rest') := by
+  intro x
+  fun_induction bracketBody x with
+  | case1 => intro raw rest h; cases h
+  | case2 t =>
+    intro raw rest h
+    simp only [Option.some.injEq, Prod.mk.injEq] at h
+    obtain ⟨rfl, rfl⟩ := h
+    exact ⟨rfl, fun rest' _ => bracketBody_close rest'⟩
+  | case3 d t' hcond _ ih =>
+    intro raw rest h
+    simp only [Option.map_eq_some_iff] at h
+    obtain ⟨⟨raw1, rest1⟩, hp, heq⟩ := h
+    simp only [Prod.mk.injEq] at heq
+    obtain ⟨rfl, rfl⟩ := heq
+    obtain ⟨ht, hl⟩ := ih raw1 rest1 hp
+    refine ⟨by rw [ht]; rfl, fun rest' hc => ?_⟩
+    have hc2 : (raw1 ++ ']' :: rest').contains ']' = true := by simp
+    simp only [Bool.and_eq_true] at hcond
+    have : (decide (d = ']') && (raw1 ++ ']' :: rest').contains ']') = true := by
+      rw [hc2, hcond.1]; rfl
+    simp only [List.cons_append]
+    rw [bracketBody_esc d _, if_pos this, hl rest' hc]; rfl
+  | case4 d r hcond _ ih =>
+    intro raw rest h
+    simp only [Option.map_eq_some_iff] at h
+    obtain ⟨⟨raw1, rest1⟩, hp, heq⟩ := h
+    simp only [Prod.mk.injEq] at heq
+    obtain ⟨rfl, rfl⟩ := heq
+    obtain ⟨ht, hl⟩ := ih raw1 rest1 hp
+    refine ⟨by rw [ht]; rfl, fun rest' hc => ?_⟩
+    cases raw1 with
+    | nil =>
+      simp only [List.nil_append, List.cons.injEq] at ht
+      obtain ⟨rfl, rfl⟩ := ht
+      have : ¬ (decide (']' = ']') && rest'.contains ']') = true := by
+        rw [hc]; exact hcond
+      simp only [List.cons_append, List.nil_append]
+      rw [bracketBody_esc ']' _, if_neg this, bracketBody_close]; rfl
+    | cons a raw2 =>
+      simp only [List.cons_append, List.cons.injEq] at ht
+      obtain ⟨rfl, rfl⟩ := ht
+      have hd : decide (d = ']') = false := by
+        cases hb : decide (d = ']') with
+        | false => rfl
+        | true => exfalso; apply hcond; rw [hb]; simp
+      have : ¬ (decide (d = ']') && (raw2 ++ ']' :: rest').contains ']') = true := by
+        rw [hd]; simp
+      have h2 := hl rest' hc
+      simp only [List.cons_append] at h2 ⊢
+      rw [bracketBody_esc d _, if_neg this, h2]; rfl
+  | case5 => intro raw rest h; cases h
+  | case6 c t hcq hcb ih =>
+    intro raw rest h
+    simp only [Option.map_eq_some_iff] at h
+    obtain ⟨⟨raw1, rest1⟩, hp, heq⟩ := h
+    simp only [Prod.mk.injEq] at heq
+    obtain ⟨rfl, rfl⟩ := heq
+    obtain ⟨ht, hl⟩ := ih raw1 rest1 hp
+    refine ⟨by rw [ht]; rfl, fun rest' hc => ?_⟩
+    simp only [List.cons_append]
+    rw [bracketBody_other c _ hcq hcb, hl rest' hc]; rfl
+
+/-- `_R_EXPR_VARIABLE_EX` behind the opening bracket → (name, rest) -/
+def brTail (r : List Char) : Option (List Char × List Char) :=
+  match r.dropWhile isPySpace with
+  | [] => none
+  | d :: r2 =>
+    if d = ']' then
+      match (r.takeWhile isPySpace).getLast? with
+      | some w => some ([w], r2)
+      | none => none
+    else (bracketBody (d :: r2)).map (fun p => (unescape ']' p.1, p.2))
+
+theorem scanVariableEx_eq (t : List Char) :
+    scanVariableEx t = match skipWs t with
+      | c :: r => if c = '[' then brTail r else none
+      | [] => none := rfl
+
+theorem blank_takeWhile (t : List Char) : Blank (t.takeWhile isPySpace) := by
+  intro c hc
+  induction t with
+  | nil => simp at hc
+  | cons a as ih =>
+    rw [List.takeWhile_cons] at hc
+    split at hc
+    · rcases List.mem_cons.mp hc with h | h
+      · subst h; assumption
+      · exact ih h
+    · simp at hc
+
+/-- what `brTail` consumed (`lit`, up to and including the closing bracket) is consumed in front of any other rest that
+agrees on "contains another `]`" -/
+theorem brTail_local (x n rest : List Char) (h : brTail x = some (n, rest)) :
+    ∃ lit, lit ≠ [] ∧ x = lit ++ rest ∧
+      ∀ rest', rest'.contains ']' = rest.contains ']' → brTail (lit ++ rest') = some (n, rest') := by
+  have hsplit : x = x.takeWhile isPySpace ++ x.dropWhile isPySpace := List.takeWhile_append_dropWhile.symm
+  have hbl := blank_takeWhile x
+  unfold brTail at h
+  split at h
+  · cases h
+  · rename_i d r2 hd
+    have hdn : isPySpace d = false := dropWhile_head_not _ hd
+    split at h
+    · rename_i hdb
+      subst hdb
+      split at h
+      · rename_i w hw
+        simp only [Option.some.injEq, Prod.mk.injEq] at h
+        obtain ⟨rfl, rfl⟩ := h
+        refine ⟨x.takeWhile isPySpace ++ [']'], by simp, by rw [hd] at hsplit; simpa using hsplit, fun rest' _ => ?_⟩
+        have e1 : List.dropWhile isPySpace (x.takeWhile isPySpace ++ [']'] ++ rest') = ']' :: rest' := by
+          rw [List.append_assoc, List.dropWhile_append_of_pos hbl]; simp [hdn]
+        have e2 : List.takeWhile isPySpace (x.takeWhile isPySpace ++ [']'] ++ rest') = x.takeWhile isPySpace := by
+          rw [List.append_assoc, List.takeWhile_append_of_pos hbl]; simp [hdn]
+        unfold brTail
+        rw [e1]
+        simp only [e2, hw, if_true]
+      · cases h
+    · rename_i hdb
+      simp only [Option.map_eq_some_iff] at h
+      obtain ⟨⟨raw, rest1⟩, hp, heq⟩ := h
+      simp only [Prod.mk.injEq] at heq
+      obtain ⟨rfl, rfl⟩ := heq
+      obtain ⟨ht, hl⟩ := bracketBody_local _ _ _ hp
+      have hraw : ∃ raw', raw ++ [']'] = d :: raw' := by
+        cases raw with
+        | nil => simp at ht; exact absurd ht.1 hdb
+        | cons a raw' => simp at ht; exact ⟨raw' ++ [']'], by simp [ht.1]⟩
+      obtain ⟨raw', hraw'⟩ := hraw
+      refine ⟨x.takeWhile isPySpace ++ (raw ++ [']']), by simp, ?_, fun rest' hc => ?_⟩
+      · rw [hd, ht] at hsplit; simpa using hsplit
+      · have e1 : List.dropWhile isPySpace (x.takeWhile isPySpace ++ (raw ++ [']']) ++ rest') = d :: (raw' ++ rest') := by
+          rw [List.append_assoc, List.dropWhile_append_of_pos hbl, hraw']; simp [hdn]
+        have e3 : d :: (raw' ++ rest') = raw ++ ']' :: rest' := by
+          rw [← List.cons_append, ← hraw']; simp
+        unfold brTail
+        rw [e1]
+        simp only [hdb, if_false]
+        rw [e3, hl rest' hc]; rfl
+
+theorem beq_false_of_ne' {a b : Char} (h : ¬ b = a) : (a == b) = false := by
+  rw [beq_eq_false_iff_ne]; exact fun e => h e.symm
+
+/-- a string body fails to match exactly when no closing quote follows -/
+theorem strBody_none_iff (q : Char) (x : List Char) : strBody q x = none ↔ x.contains q = false := by
+  fun_induction strBody q x with
+  | case1 => simp
+  | case2 t => simp
+  | case3 d t' hcond hne ih =>
+    simp only [Option.map_eq_none_iff, ih, List.contains_cons]
+    simp only [Bool.and_eq_true] at hcond
+    have : (q == '\\') = false := beq_false_of_ne' hne
+    rw [this, hcond.2]; simp
+  | case4 d r hcond hne ih =>
+    simp only [Option.map_eq_none_iff, ih]
+    have : (q == '\\') = false := beq_false_of_ne' hne
+    conv => rhs; rw [List.contains_cons, this, Bool.false_or]
+  | case5 hne =>
+    have : (q == '\\') = false := beq_false_of_ne' hne
+    simp only [List.contains_cons, this, List.contains_nil, Bool.or_false]
+  | case6 c t hcq hcb ih =>
+    simp only [Option.map_eq_none_iff, ih]
+    have : (q == c) = false := beq_false_of_ne' hcq
+    conv => rhs; rw [List.contains_cons, this, Bool.false_or]
+
+theorem bracketBody_none_iff (x : List Char) : bracketBody x = none ↔ x.contains ']' = false := by
+  fun_induction bracketBody x with
+  | case1 => simp
+  | case2 t => simp
+  | case3 d t' hcond hne ih =>
+    simp only [Option.map_eq_none_iff, ih, List.contains_cons]
+    simp only [Bool.and_eq_true] at hcond
+    rw [hcond.2]; simp
+  | case4 d r hcond hne ih =>
+    simp only [Option.map_eq_none_iff, ih]
+    have : (']' == '\\') = false := by decide
+    conv => rhs; rw [List.contains_cons, this, Bool.false_or]
+  | case5 hne => decide
+  | case6 c t hcq hcb ih =>
+    simp only [Option.map_eq_none_iff, ih]
+    have : (']' == c) = false := beq_false_of_ne' hcq
+    conv => rhs; rw [List.contains_cons, this, Bool.false_or]
+
+theorem brTail_none_of_not_contains {t : List Char} (h : t.contains ']' = false) : brTail t = none := by
+  have hsplit : t = t.takeWhile isPySpace ++ t.dropWhile isPySpace := List.takeWhile_append_dropWhile.symm
+  unfold brTail
+  split
+  · rfl
+  · rename_i d r2 hd
+    have hc : (d :: r2).contains ']' = false := by
+      rw [hsplit, List.contains_append, hd] at h
+      simp only [Bool.or_eq_false_iff] at h; exact h.2
+    have hd' : ¬ d = ']' := by
+      intro e; subst e; simp at hc
+    simp only [hd', if_false, (bracketBody_none_iff _).mpr hc, Option.map_none]
+
+/-- `brTail` fails on a text that contains a `]` only for `[]…` -/
+theorem brTail_none_contains {t : List Char} (h : brTail t = none) (hc : t.contains ']' = true) : ∃ r2, t = ']' :: r2 := by
+  have hsplit : t = t.takeWhile isPySpace ++ t.dropWhile isPySpace := List.takeWhile_append_dropWhile.symm
+  unfold brTail at h
+  split at h
+  · rename_i hd
+    exfalso
+    rw [hsplit, hd, List.append_nil] at hc
+    rw [blank_contains (blank_takeWhile t) (by decide)] at hc; cases hc
+  · rename_i d r2 hd
+    split at h
+    · rename_i hdb
+      subst hdb
+      split at h
+      · cases h
+      · rename_i hnone
+        have : t.takeWhile isPySpace = [] := by
+          cases hw : t.takeWhile isPySpace with
+          | nil => rfl
+          | cons a as =>
+            exfalso; rw [hw] at hnone
+            simp [List.getLast?_eq_some_getLast] at hnone
+        rw [this, hd, List.nil_append] at hsplit
+        exact ⟨r2, hsplit⟩
+    · exfalso
+      simp only [Option.map_eq_none_iff] at h
+      have h2 := (bracketBody_none_iff _).mp h
+      rw [hsplit, List.contains_append, hd, h2, blank_contains (blank_takeWhile t) (by decide)] at hc
+      cases hc
+
+theorem brTail_empty (r : List Char) : brTail (']' :: r) = none := by
+  have h0 : isPySpace ']' = false := by decide
+  have h1 : List.dropWhile isPySpace (']' :: r) = ']' :: r := by simp [h0]
+  have h2 : List.takeWhile isPySpace (']' :: r) = [] := by simp [h0]
+  unfold brTail
+  rw [h1]; simp only [h2, if_true]; rfl
+
+theorem consumes_string (q : Char) : Consumes (scanString q) := by
+  intro t x r h
+  simp only [scanString] at h
+  split at h
+  · rename_i c r' hs
+    rw [hs]
+    split at h
+    · simp only [Option.map_eq_some_iff] at h
+      obtain ⟨⟨raw, rest⟩, hp, heq⟩ := h
+      simp only [Prod.mk.injEq] at heq
+      obtain ⟨_, rfl⟩ := heq
+      have := (strBody_local q _ _ _ hp).1
+      rw [this]; simp; omega
+    · cases h
+  · cases h
+
+theorem consumes_variableEx : Consumes scanVariableEx := by
+  intro t x r h
+  rw [scanVariableEx_eq] at h
+  split at h
+  · rename_i c r' hs
+    rw [hs]
+    split at h
+    · obtain ⟨lit, _, hx, _⟩ := brTail_local _ _ _ h
+      rw [hx]; simp; omega
+    · cases h
+  · cases h
+
+/-! ## instance 1: blanks in front of the whole text -/
+
+/-- `ws ++ s` against `s`: the two whole texts, or the same remaining text strictly inside -/
+def LeadR (ws s : List Char) (t t' : List Char) : Prop := (t = s ∧ t' = ws ++ s) ∨ (t = t' ∧ t.length < s.length)
+
+theorem lead_scanner {α : Type} {ws s : List Char} (hws : Blank ws) {sc : List Char → Option (α × List Char)}
+    (h1 : SkipsWs sc) (h2 : Consumes sc) {t t' : List Char} (h : LeadR ws s t t') :
+    ORel (LeadR ws s) (sc t) (sc t') := by
+  have key : ∀ u, u.length ≤ s.length → ORel (LeadR ws s) (sc u) (sc u) := by
+    intro u hu
+    cases hsc : sc u with
+    | none => trivial
+    | some x =>
+      obtain ⟨a, r⟩ := x
+      have := h2 u a r hsc
+      have := skipWs_length_le u
+      exact ⟨rfl, Or.inr ⟨rfl, by simp only; omega⟩⟩
+  rcases h with ⟨rfl, rfl⟩ | ⟨rfl, hl⟩
+  · rw [h1 (ws ++ t), skipWs_blank_append hws, ← h1 t]
+    exact key t (Nat.le_refl _)
+  · exact key t (by omega)
+
+theorem lead_respects {ws s : List Char} (hws : Blank ws) : Respects (LeadR ws s) where
+  binOp h := lead_scanner hws skips_binOp consumes_binOp h
+  unOp h := lead_scanner hws skips_unOp consumes_unOp h
+  groupOpen h := ORel1_of_unit (lead_scanner hws (skips_char _) (consumes_char _) h)
+  close h := ORel1_of_unit (lead_scanner hws (skips_char _) (consumes_char _) h)
+  comma h := ORel1_of_unit (lead_scanner hws (skips_char _) (consumes_char _) h)
+  funcOpen h := lead_scanner hws skips_funcOpen consumes_funcOpen h
+  number h := lead_scanner hws skips_number consumes_number h
+  strS h := lead_scanner hws (skips_string _) (consumes_string _) h
+  strD h := lead_scanner hws (skips_string _) (consumes_string _) h
+  var h := lead_scanner hws skips_variable consumes_variable h
+  varEx h := lead_scanner hws skips_variableEx consumes_variableEx h
+
+/-! ## instance 2: one blank run outside string literals and bracketed names replaced by another -/
+
+/-- the characters that open a token inside which white space is significant -/
+def special (c : Char) : Bool := c == '\'' || c == '"' || c == '['
+
+/-- `Gap ws ws' q t t'`: `t = a ++ ws ++ q` and `t' = a ++ ws' ++ q` for a text `a` that — read from its start as a
+sequence of ordinary characters, complete string literals (as `strBody` delimits them, in the context of the whole text)
+and complete bracketed names (as `_R_EXPR_VARIABLE_EX` delimits them) — ends exactly in front of the site.  So the
+site `ws`/`ws'` is not inside a string literal nor inside a bracketed name.  (`strFail`/`brFail`: a quote that no later
+quote closes, a `[` that `_R_EXPR_VARIABLE_EX` does not match, open nothing — no token pattern matches there — and are
+passed like ordinary characters.) -/
+inductive Gap (ws ws' q : List Char) : List Char → List Char → Prop
+  | site : Gap ws ws' q (ws ++ q) (ws' ++ q)
+  | cons (c : Char) {t t' : List Char} : special c = false → Gap ws ws' q t t' → Gap ws ws' q (c :: t) (c :: t')
+  | str (qc : Char) (raw : List Char) {t t' : List Char} : (qc = '\'' ∨ qc = '"') →
+      strBody qc (raw ++ qc :: t) = some (raw, t) → Gap ws ws' q t t' →
+      Gap ws ws' q (qc :: (raw ++ qc :: t)) (qc :: (raw ++ qc :: t'))
+  | br (lit n : List Char) {t t' : List Char} : brTail (lit ++ t) = some (n, t) → Gap ws ws' q t t' →
+      Gap ws ws' q ('[' :: (lit ++ t)) ('[' :: (lit ++ t'))
+  | strFail (qc : Char) {t t' : List Char} : (qc = '\'' ∨ qc = '"') → t.contains qc = false → Gap ws ws' q t t' →
+      Gap ws ws' q (qc :: t) (qc :: t')
+  | brFail {t t' : List Char} : brTail t = none → Gap ws ws' q t t' → Gap ws ws' q ('[' :: t) ('[' :: t')
+
+/-- the two runs are blank; both non-empty, unless the site is the end of the text -/
+structure GapOK (ws ws' q : List Char) : Prop where
+  blank : Blank ws
+  blank' : Blank ws'
+  ne : (ws ≠ [] ∧ ws' ≠ []) ∨ q = []
+
+/-- before the site, or the same remaining text behind it -/
+def GapR (ws ws' q : List Char) (t t' : List Char) : Prop := Gap ws ws' q t t' ∨ (t = t' ∧ t.length < q.length)
+
+section GapSec
+variable {ws ws' q : List Char}
+
+theorem Gap.length {t t' : List Char} (h : Gap ws ws' q t t') :
+    t.length + ws'.length = t'.length + ws.length ∧ ws.length + q.length ≤ t.length := by
+  induction h with
+  | site => simp; omega
+  | cons c _ _ ih => simp; omega
+  | str qc raw _ _ _ ih => simp; omega
+  | br lit n _ _ ih => simp; omega
+  | strFail qc _ _ _ ih => simp; omega
+  | brFail _ _ ih => simp; omega
+
+theorem Gap.contains (ok : GapOK ws ws' q) {t t' : List Char} (h : Gap ws ws' q t t') {c : Char} (hc : isPySpace c = false) :
+    t.contains c = t'.contains c := by
+  induction h with
+  | site => simp only [List.contains_append, blank_contains ok.blank hc, blank_contains ok.blank' hc]
+  | cons d _ _ ih => simp only [List.contains_cons, ih]
+  | str qc raw _ _ _ ih => simp only [List.contains_cons, List.contains_append, ih]
+  | br lit n _ _ ih => simp only [List.contains_cons, List.contains_append, ih]
+  | strFail qc _ _ _ ih => simp only [List.contains_cons, ih]
+  | brFail _ _ ih => simp only [List.contains_cons, ih]
+
+/-- skipping leading white space: either the site is reached (same text behind it), or both texts continue with the same
+non-blank character, still in front of the site -/
+theorem Gap.skipWs (ok : GapOK ws ws' q) {t t' : List Char} (h : Gap ws ws' q t t') :
+    (skipWs t = skipWs t' ∧ (skipWs t).length ≤ q.length) ∨
+    (∃ d r r', isPySpace d = false ∧ skipWs t = d :: r ∧ skipWs t' = d :: r' ∧ Gap ws ws' q (d :: r) (d :: r')) := by
+  induction h with
+  | site =>
+    left
+    rw [skipWs_blank_append ok.blank, skipWs_blank_append ok.blank']
+    exact ⟨rfl, skipWs_length_le q⟩
+  | @cons c t t' hc hg ih =>
+    by_cases hb : isPySpace c = true
+    · rw [skipWs_cons_blank _ hb, skipWs_cons_blank _ hb]; exact ih
+    · have hb' : isPySpace c = false := by simpa using hb
+      right
+      exact ⟨c, t, t', hb', skipWs_nonblank _ hb', skipWs_nonblank _ hb', Gap.cons c hc hg⟩
+  | @str qc raw t t' hq hs hg ih =>
+    have hb' : isPySpace qc = false := by rcases hq with rfl | rfl <;> decide
+    right
+    exact ⟨qc, _, _, hb', skipWs_nonblank _ hb', skipWs_nonblank _ hb', Gap.str qc raw hq hs hg⟩
+  | @br lit n t t' hs hg ih =>
+    right
+    exact ⟨'[', _, _, by decide, skipWs_nonblank _ (by decide), skipWs_nonblank _ (by decide), Gap.br lit n hs hg⟩
+  | @strFail qc t t' hq hs hg ih =>
+    have hb' : isPySpace qc = false := by rcases hq with rfl | rfl <;> decide
+    right
+    exact ⟨qc, _, _, hb', skipWs_nonblank _ hb', skipWs_nonblank _ hb', Gap.strFail qc hq hs hg⟩
+  | @brFail t t' hs hg ih =>
+    right
+    exact ⟨'[', _, _, by decide, skipWs_nonblank _ (by decide), skipWs_nonblank _ (by decide), Gap.brFail hs hg⟩
+
+/-- a scanner that begins with `\s*`, consumes something, and respects `Gap` on texts that start with a non-blank
+character, respects `GapR` -/
+theorem gap_scanner (ok : GapOK ws ws' q) {α : Type} {sc : List Char → Option (α × List Char)}
+    (h1 : SkipsWs sc) (h2 : Consumes sc)
+    (hmain : ∀ d r r', isPySpace d = false → Gap ws ws' q (d :: r) (d :: r') →
+      ORel (GapR ws ws' q) (sc (d :: r)) (sc (d :: r')))
+    {t t' : List Char} (h : GapR ws ws' q t t') : ORel (GapR ws ws' q) (sc t) (sc t') := by
+  have key : ∀ u, (skipWs u).length ≤ q.length → ORel (GapR ws ws' q) (sc u) (sc u) := by
+    intro u hu
+    cases hsc : sc u with
+    | none => trivial
+    | some x =>
+      obtain ⟨a, r⟩ := x
+      have := h2 u a r hsc
+      exact ⟨rfl, Or.inr ⟨rfl, by simp only; omega⟩⟩
+  rcases h with hg | ⟨rfl, hl⟩
+  · rcases hg.skipWs ok with ⟨he, hl⟩ | ⟨d, r, r', hd, e1, e2, hg'⟩
+    · rw [h1 t', ← he, ← h1 t]; exact key t hl
+    · rw [h1 t, h1 t', e1, e2]; exact hmain d r r' hd hg'
+  · exact key t (by have := skipWs_length_le t; omega)
+
+/-- what a `Gap` pair looks like when the first text starts with a non-blank character -/
+theorem Gap.inv (ok : GapOK ws ws' q) {d : Char} {r x' : List Char} (h : Gap ws ws' q (d :: r) x') (hd : isPySpace d = false) :
+    (special d = false ∧ ∃ r', x' = d :: r' ∧ Gap ws ws' q r r') ∨
+    ((d = '\'' ∨ d = '"') ∧ ∃ raw t1 t1', r = raw ++ d :: t1 ∧ x' = d :: (raw ++ d :: t1') ∧
+        strBody d (raw ++ d :: t1) = some (raw, t1) ∧ Gap ws ws' q t1 t1') ∨
+    (d = '[' ∧ ∃ lit n t1 t1', r = lit ++ t1 ∧ x' = '[' :: (lit ++ t1') ∧ brTail (lit ++ t1) = some (n, t1) ∧
+        Gap ws ws' q t1 t1') ∨
+    ((d = '\'' ∨ d = '"') ∧ r.contains d = false ∧ ∃ r', x' = d :: r' ∧ Gap ws ws' q r r') ∨
+    (d = '[' ∧ brTail r = none ∧ ∃ r', x' = '[' :: r' ∧ Gap ws ws' q r r') := by
+  generalize hx : d :: r = x at h
+  cases h with
+  | site =>
+    exfalso
+    cases hws : ws with
+    | nil =>
+      rcases ok.ne with ⟨h1, _⟩ | h2
+      · exact h1 hws
+      · rw [hws, h2] at hx; cases hx
+    | cons w ws1 =>
+      rw [hws] at hx
+      simp only [List.cons_append, List.cons.injEq] at hx
+      have := ok.blank w (by rw [hws]; simp)
+      rw [← hx.1, hd] at this; cases this
+  | @cons c t t' hc hg =>
+    simp only [List.cons.injEq] at hx
+    obtain ⟨rfl, rfl⟩ := hx
+    exact Or.inl ⟨hc, t', rfl, hg⟩
+  | @str qc raw t t' hq hs hg =>
+    simp only [List.cons.injEq] at hx
+    obtain ⟨rfl, rfl⟩ := hx
+    exact Or.inr (Or.inl ⟨hq, raw, t, t', rfl, rfl, hs, hg⟩)
+  | @br lit n t t' hs hg =>
+    simp only [List.cons.injEq] at hx
+    obtain ⟨rfl, rfl⟩ := hx
+    exact Or.inr (Or.inr (Or.inl ⟨rfl, lit, n, t, t', rfl, rfl, hs, hg⟩))
+  | @strFail qc t t' hq hs hg =>
+    simp only [List.cons.injEq] at hx
+    obtain ⟨rfl, rfl⟩ := hx
+    exact Or.inr (Or.inr (Or.inr (Or.inl ⟨hq, hs, t', rfl, hg⟩)))
+  | @brFail t t' hs hg =>
+    simp only [List.cons.injEq] at hx
+    obtain ⟨rfl, rfl⟩ := hx
+    exact Or.inr (Or.inr (Or.inr (Or.inr ⟨rfl, hs, t', rfl, hg⟩)))
+
+/-- an ordinary character: not white space, does not open a string literal or a bracketed name -/
+def ord (c : Char) : Bool := !isPySpace c && !special c
+
+/-- the text does not start with an ordinary character -/
+def NoOrd (t : List Char) : Prop := ∀ c r, t = c :: r → ord c = false
+
+theorem blank_noOrd {ws : List Char} (h : Blank ws) : NoOrd ws := by
+  intro c r e
+  have := h c (by rw [e]; simp)
+  simp [ord, this]
+
+/-- one step through a `Gap` pair: the same ordinary character in front of a `Gap` pair, or no ordinary character at the
+start of either text -/
+theorem Gap.step (ok : GapOK ws ws' q) {t t' : List Char} (h : Gap ws ws' q t t') :
+    (∃ c t1 t1', ord c = true ∧ t = c :: t1 ∧ t' = c :: t1' ∧ Gap ws ws' q t1 t1') ∨ (NoOrd t ∧ NoOrd t') := by
+  cases h with
+  | site =>
+    right
+    rcases ok.ne with ⟨h1, h2⟩ | h3
+    · constructor
+      · intro c r e
+        cases hws : ws with
+        | nil => exact absurd hws h1
+        | cons w ws1 =>
+          rw [hws] at e; simp only [List.cons_append, List.cons.injEq] at e
+          have := ok.blank w (by rw [hws]; simp)
+          rw [← e.1]; simp [ord, this]
+      · intro c r e
+        cases hws : ws' with
+        | nil => exact absurd hws h2
+        | cons w ws1 =>
+          rw [hws] at e; simp only [List.cons_append, List.cons.injEq] at e
+          have := ok.blank' w (by rw [hws]; simp)
+          rw [← e.1]; simp [ord, this]
+    · subst h3
+      simp only [List.append_nil]
+      exact ⟨blank_noOrd ok.blank, blank_noOrd ok.blank'⟩
+  | @cons c t t' hc hg =>
+    by_cases ho : ord c = true
+    · exact Or.inl ⟨c, t, t', ho, rfl, rfl, hg⟩
+    · right
+      have ho' : ord c = false := by simpa using ho
+      exact ⟨fun c' r e => by cases e; exact ho', fun c' r e => by cases e; exact ho'⟩
+  | @str qc raw t t' hq hs hg =>
+    right
+    have : ord qc = false := by rcases hq with rfl | rfl <;> decide
+    exact ⟨fun c' r e => by cases e; exact this, fun c' r e => by cases e; exact this⟩
+  | @br lit n t t' hs hg =>
+    right
+    exact ⟨fun c' r e => by cases e; decide, fun c' r e => by cases e; decide⟩
+  | @strFail qc t t' hq hs hg =>
+    right
+    have : ord qc = false := by rcases hq with rfl | rfl <;> decide
+    exact ⟨fun c' r e => by cases e; exact this, fun c' r e => by cases e; exact this⟩
+  | @brFail t t' hs hg =>
+    right
+    exact ⟨fun c' r e => by cases e; decide, fun c' r e => by cases e; decide⟩
+
+/-! ### the scanners on a `Gap` pair -/
+
+theorem site_noOrd (ok : GapOK ws ws' q) : NoOrd (ws ++ q) ∧ NoOrd (ws' ++ q) := by
+  rcases (Gap.site : Gap ws ws' q _ _).step ok with ⟨c, t1, t1', hc, e1, e2, _⟩ | h
+  · exfalso
+    cases hws : ws with
+    | nil =>
+      rcases ok.ne with ⟨h1, _⟩ | h2
+      · exact h1 hws
+      · rw [hws, h2] at e1; cases e1
+    | cons w ws1 =>
+      rw [hws] at e1
+      simp only [List.cons_append, List.cons.injEq] at e1
+      have := ok.blank w (by rw [hws]; simp)
+      rw [e1.1] at this; simp [ord, this] at hc
+  · exact h
+
+theorem noOrd_takeWhile {p : Char → Bool} (hp : ∀ c, p c = true → ord c = true) {t : List Char} (h : NoOrd t) :
+    t.takeWhile p = [] ∧ t.dropWhile p = t := by
+  cases t with
+  | nil => simp
+  | cons c r =>
+    have h1 := h c r rfl
+    have : p c = false := by
+      cases hpc : p c with
+      | false => rfl
+      | true => rw [hp c hpc] at h1; cases h1
+    simp [this]
+
+theorem Gap.takeWhile (ok : GapOK ws ws' q) {p : Char → Bool} (hp : ∀ c, p c = true → ord c = true)
+    {t t' : List Char} (h : Gap ws ws' q t t') :
+    t.takeWhile p = t'.takeWhile p ∧ Gap ws ws' q (t.dropWhile p) (t'.dropWhile p) := by
+  induction h with
+  | site =>
+    obtain ⟨n1, n2⟩ := site_noOrd ok
+    rw [(noOrd_takeWhile hp n1).1, (noOrd_takeWhile hp n1).2, (noOrd_takeWhile hp n2).1, (noOrd_takeWhile hp n2).2]
+    exact ⟨rfl, Gap.site⟩
+  | @cons c t t' hc hg ih =>
+    by_cases hpc : p c = true
+    · simp only [List.takeWhile_cons, List.dropWhile_cons, hpc, if_true]
+      exact ⟨by rw [ih.1], ih.2⟩
+    · simp only [List.takeWhile_cons, List.dropWhile_cons, hpc]
+      exact ⟨rfl, Gap.cons c hc hg⟩
+  | @str qc raw t t' hq hs hg ih =>
+    have hpc : ¬ p qc = true := by
+      intro h1; have := hp qc h1; rcases hq with rfl | rfl <;> simp [ord, special] at this
+    simp only [List.takeWhile_cons, List.dropWhile_cons, hpc]
+    exact ⟨rfl, Gap.str qc raw hq hs hg⟩
+  | @br lit n t t' hs hg ih =>
+    have hpc : ¬ p '[' = true := by
+      intro h1; have := hp '[' h1; simp [ord, special] at this
+    simp only [List.takeWhile_cons, List.dropWhile_cons, hpc]
+    exact ⟨rfl, Gap.br lit n hs hg⟩
+  | @strFail qc t t' hq hs hg ih =>
+    have hpc : ¬ p qc = true := by
+      intro h1; have := hp qc h1; rcases hq with rfl | rfl <;> simp [ord, special] at this
+    simp only [List.takeWhile_cons, List.dropWhile_cons, hpc]
+    exact ⟨rfl, Gap.strFail qc hq hs hg⟩
+  | @brFail t t' hs hg ih =>
+    have hpc : ¬ p '[' = true := by
+      intro h1; have := hp '[' h1; simp [ord, special] at this
+    simp only [List.takeWhile_cons, List.dropWhile_cons, hpc]
+    exact ⟨rfl, Gap.brFail hs hg⟩
+
+theorem noOrd_stripPrefix {x : Char} (xs : List Char) (hx : ord x = true) {t : List Char} (h : NoOrd t) :
+    stripPrefix? (x :: xs) t = none := by
+  cases t with
+  | nil => rfl
+  | cons c r =>
+    have h1 := h c r rfl
+    have : x ≠ c := by intro e; rw [e, h1] at hx; cases hx
+    simp [stripPrefix?, this]
+
+theorem Gap.stripPrefix (ok : GapOK ws ws' q) : ∀ (p : List Char), (∀ c ∈ p, ord c = true) → ∀ t t' : List Char,
+    Gap ws ws' q t t' → ORel1 (Gap ws ws' q) (stripPrefix? p t) (stripPrefix? p t')
+  | [], _, t, t', h => by simpa [stripPrefix?, ORel1] using h
+  | x :: xs, hp, t, t', h => by
+    rcases h.step ok with ⟨c, t1, t1', _, rfl, rfl, hg⟩ | ⟨n1, n2⟩
+    · simp only [stripPrefix?]
+      split
+      · exact Gap.stripPrefix ok xs (fun c hc => hp c (List.mem_cons_of_mem _ hc)) t1 t1' hg
+      · trivial
+    · rw [noOrd_stripPrefix xs (hp x (by simp)) n1, noOrd_stripPrefix xs (hp x (by simp)) n2]; trivial
+
+theorem Gap.firstAlt (ok : GapOK ws ws' q) {α : Type} : ∀ (alts : List (List Char × α)),
+    (∀ p ∈ alts, ∀ c ∈ p.1, ord c = true) → ∀ t t' : List Char, Gap ws ws' q t t' →
+    ORel (Gap ws ws' q) (firstAlt alts t) (firstAlt alts t')
+  | [], _, _, _, _ => by simp [ExprScan.firstAlt, ORel]
+  | (p, a) :: rest, hp, t, t', h => by
+    have h1 := Gap.stripPrefix ok p (hp (p, a) (by simp)) t t' h
+    simp only [ExprScan.firstAlt]
+    cases e1 : stripPrefix? p t <;> cases e2 : stripPrefix? p t' <;> simp only [e1, e2, ORel1] at h1 ⊢
+    · exact Gap.firstAlt ok rest (fun x hx => hp x (List.mem_cons_of_mem _ hx)) t t' h
+    · exact ⟨rfl, h1⟩
+
+theorem gapR_of_gap : ∀ a b, Gap ws ws' q a b → GapR ws ws' q a b := fun _ _ h => Or.inl h
+
+theorem gap_binOp (ok : GapOK ws ws' q) {t t' : List Char} (h : GapR ws ws' q t t') :
+    ORel (GapR ws ws' q) (scanBinOp t) (scanBinOp t') := by
+  refine gap_scanner ok skips_binOp consumes_binOp (fun d r r' hd hg => ?_) h
+  simp only [scanBinOp, skipWs_nonblank _ hd]
+  exact (Gap.firstAlt ok binOpAlts (by decide) _ _ hg).mono gapR_of_gap
+
+theorem gap_unOp (ok : GapOK ws ws' q) {t t' : List Char} (h : GapR ws ws' q t t') :
+    ORel (GapR ws ws' q) (scanUnaryOp t) (scanUnaryOp t') := by
+  refine gap_scanner ok skips_unOp consumes_unOp (fun d r r' hd hg => ?_) h
+  simp only [scanUnaryOp, skipWs_nonblank _ hd]
+  exact (Gap.firstAlt ok unOpAlts (by decide) _ _ hg).mono gapR_of_gap
+
+theorem gap_char (ok : GapOK ws ws' q) (c : Char) (hc : ord c = true) {t t' : List Char} (h : GapR ws ws' q t t') :
+    ORel (GapR ws ws' q) (unitSc (scanChar c) t) (unitSc (scanChar c) t') := by
+  refine gap_scanner ok (skips_char c) (consumes_char c) (fun d r r' hd hg => ?_) h
+  simp only [unitSc, scanChar, skipWs_nonblank _ hd]
+  rcases hg.step ok with ⟨c0, t1, t1', _, e1, e2, hg1⟩ | ⟨n1, _⟩
+  · simp only [List.cons.injEq] at e1 e2
+    obtain ⟨rfl, rfl⟩ := e1
+    obtain ⟨_, rfl⟩ := e2
+    split
+    · exact ⟨rfl, Or.inl hg1⟩
+    · trivial
+  · have : d ≠ c := by intro e; have := n1 d r rfl; rw [e, hc] at this; cases this
+    simp [this, ORel]
+
+theorem word_ord (c : Char) (h : isWord c = true) : ord c = true := by
+  have hn : (48 ≤ c.toNat ∧ c.toNat ≤ 57) ∨ (65 ≤ c.toNat ∧ c.toNat ≤ 90) ∨ (97 ≤ c.toNat ∧ c.toNat ≤ 122) ∨ c = '_' := by
+    by_cases hu : c = '_'
+    · exact Or.inr (Or.inr (Or.inr hu))
+    · simp only [isWord, isIdStart, isDigit, Bool.or_eq_true, Bool.and_eq_true, decide_eq_true_eq, beq_iff_eq, hu,
+        or_false] at h
+      omega
+  have hs : isPySpace c = false := by
+    cases hsp : isPySpace c with
+    | false => rfl
+    | true =>
+      exfalso
+      simp only [isPySpace, Bool.or_eq_true, Bool.and_eq_true, decide_eq_true_eq, beq_iff_eq] at hsp
+      rcases hn with h1 | h1 | h1 | rfl
+      · omega
+      · omega
+      · omega
+      · revert hsp; decide
+  have hsp : special c = false := by
+    cases hq : special c with
+    | false => rfl
+    | true =>
+      exfalso
+      simp only [special, Bool.or_eq_true, beq_iff_eq] at hq
+      rcases hq with (rfl | rfl) | rfl <;> revert h <;> decide
+  simp [ord, hs, hsp]
+
+theorem idStart_ord (c : Char) (h : isIdStart c = true) : ord c = true :=
+  word_ord c (by simp [isWord, h])
+
+theorem digit_ord (c : Char) (h : isDigit c = true) : ord c = true :=
+  word_ord c (by simp [isWord, h])
+
+theorem gap_variable (ok : GapOK ws ws' q) {t t' : List Char} (h : GapR ws ws' q t t') :
+    ORel (GapR ws ws' q) (scanVariable t) (scanVariable t') := by
+  refine gap_scanner ok skips_variable consumes_variable (fun d r r' hd hg => ?_) h
+  simp only [scanVariable, skipWs_nonblank _ hd]
+  by_cases hid : isIdStart d = true
+  · rcases hg.step ok with ⟨c0, t1, t1', _, e1, e2, hg1⟩ | ⟨n1, _⟩
+    · simp only [List.cons.injEq] at e1 e2
+      obtain ⟨rfl, rfl⟩ := e1
+      obtain ⟨_, rfl⟩ := e2
+      obtain ⟨h1, h2⟩ := hg1.takeWhile ok word_ord
+      simp only [hid, if_true]
+      exact ⟨by simp only; rw [h1], Or.inl h2⟩
+    · have := n1 d r rfl; rw [idStart_ord d hid] at this; cases this
+  · simp [hid, ORel]
+
+theorem scanFuncOpen_eq (t : List Char) :
+    scanFuncOpen t = match skipWs t with
+      | c :: r => if isIdStart c then (scanChar '(' (r.dropWhile isWord)).map (fun r2 => (c :: r.takeWhile isWord, r2)) else none
+      | [] => none := by
+  unfold scanFuncOpen scanChar
+  cases skipWs t with
+  | nil => rfl
+  | cons c r =>
+    simp only []
+    split
+    · cases skipWs (List.dropWhile isWord r) with
+      | nil => rfl
+      | cons d r2 => simp only []; split <;> rfl
+    · rfl
+
+theorem gap_funcOpen (ok : GapOK ws ws' q) {t t' : List Char} (h : GapR ws ws' q t t') :
+    ORel (GapR ws ws' q) (scanFuncOpen t) (scanFuncOpen t') := by
+  refine gap_scanner ok skips_funcOpen consumes_funcOpen (fun d r r' hd hg => ?_) h
+  simp only [scanFuncOpen_eq, skipWs_nonblank _ hd]
+  by_cases hid : isIdStart d = true
+  · rcases hg.step ok with ⟨c0, t1, t1', _, e1, e2, hg1⟩ | ⟨n1, _⟩
+    · simp only [List.cons.injEq] at e1 e2
+      obtain ⟨rfl, rfl⟩ := e1
+      obtain ⟨_, rfl⟩ := e2
+      obtain ⟨h1, h2⟩ := hg1.takeWhile ok word_ord
+      have h3 := gap_char ok '(' (by decide) (Or.inl h2)
+      simp only [hid, if_true, h1]
+      simp only [unitSc] at h3
+      cases e3 : scanChar '(' (List.dropWhile isWord r) <;> cases e4 : scanChar '(' (List.dropWhile isWord r') <;>
+        simp only [e3, e4, Option.map_some, Option.map_none, ORel] at h3 ⊢
+      exact ⟨by trivial, h3.2⟩
+    · have := n1 d r rfl; rw [idStart_ord d hid] at this; cases this
+  · simp [hid, ORel]
+
+/-! #### numbers -/
+
+theorem noOrd_scanSign {t : List Char} (h : NoOrd t) : scanSign t = (false, t) := by
+  cases t with
+  | nil => rfl
+  | cons c r =>
+    have h0 := h c r rfl
+    have h1 : c ≠ '+' := by intro e; subst e; revert h0; decide
+    have h2 : c ≠ '-' := by intro e; subst e; revert h0; decide
+    simp [scanSign, h1, h2]
+
+theorem Gap.scanSign (ok : GapOK ws ws' q) {t t' : List Char} (h : Gap ws ws' q t t') :
+    (scanSign t).1 = (scanSign t').1 ∧ Gap ws ws' q (scanSign t).2 (scanSign t').2 := by
+  rcases h.step ok with ⟨c, t1, t1', _, rfl, rfl, hg⟩ | ⟨n1, n2⟩
+  · simp only [ExprScan.scanSign]
+    split
+    · exact ⟨rfl, hg⟩
+    · split
+      · exact ⟨rfl, hg⟩
+      · exact ⟨rfl, h⟩
+  · rw [noOrd_scanSign n1, noOrd_scanSign n2]; exact ⟨rfl, h⟩
+
+theorem noOrd_scanFrac {t : List Char} (h : NoOrd t) : scanFrac t = ([], t) := by
+  cases t with
+  | nil => rfl
+  | cons c r =>
+    have h0 := h c r rfl
+    have h1 : c ≠ '.' := by intro e; subst e; revert h0; decide
+    simp [scanFrac, h1]
+
+theorem Gap.scanFrac (ok : GapOK ws ws' q) {t t' : List Char} (h : Gap ws ws' q t t') :
+    (scanFrac t).1 = (scanFrac t').1 ∧ Gap ws ws' q (scanFrac t).2 (scanFrac t').2 := by
+  rcases h.step ok with ⟨c, t1, t1', _, rfl, rfl, hg⟩ | ⟨n1, n2⟩
+  · simp only [ExprScan.scanFrac]
+    obtain ⟨h1, h2⟩ := hg.takeWhile ok digit_ord
+    split
+    · exact ⟨h1, h2⟩
+    · exact ⟨rfl, h⟩
+  · rw [noOrd_scanFrac n1, noOrd_scanFrac n2]; exact ⟨rfl, h⟩
+
+theorem noOrd_scanExp {t : List Char} (h : NoOrd t) : scanExp t = (0, t) := by
+  match t, h with
+  | [], _ => rfl
+  | [c], _ => rfl
+  | c :: s :: r, h =>
+    have h0 := h c _ rfl
+    have h1 : c ≠ 'e' := by intro e; subst e; revert h0; decide
+    simp [scanExp, h1]
+
+theorem scanExp_not_e {c : Char} (t : List Char) (h : c ≠ 'e') : scanExp (c :: t) = (0, c :: t) := by
+  cases t with
+  | nil => rfl
+  | cons s r => simp [scanExp, h]
+
+theorem scanExp_e_noOrd {t : List Char} (h : NoOrd t) : scanExp ('e' :: t) = (0, 'e' :: t) := by
+  cases t with
+  | nil => rfl
+  | cons s r =>
+    have h0 := h s r rfl
+    have h1 : s ≠ '+' := by intro e; subst e; revert h0; decide
+    have h2 : s ≠ '-' := by intro e; subst e; revert h0; decide
+    simp [scanExp, h1, h2]
+
+theorem Gap.scanExp (ok : GapOK ws ws' q) {t t' : List Char} (h : Gap ws ws' q t t') :
+    (scanExp t).1 = (scanExp t').1 ∧ Gap ws ws' q (scanExp t).2 (scanExp t').2 := by
+  rcases h.step ok with ⟨c, t1, t1', _, rfl, rfl, hg⟩ | ⟨n1, n2⟩
+  · by_cases hc : c = 'e'
+    · subst hc
+      rcases hg.step ok with ⟨s, t2, t2', _, rfl, rfl, hg2⟩ | ⟨m1, m2⟩
+      · obtain ⟨h1, h2⟩ := hg2.takeWhile ok digit_ord
+        simp only [ExprScan.scanExp, h1]
+        split
+        · split
+          · exact ⟨rfl, h⟩
+          · exact ⟨rfl, h2⟩
+        · exact ⟨rfl, h⟩
+      · rw [scanExp_e_noOrd m1, scanExp_e_noOrd m2]; exact ⟨rfl, h⟩
+    · rw [scanExp_not_e _ hc, scanExp_not_e _ hc]; exact ⟨rfl, h⟩
+  · rw [noOrd_scanExp n1, noOrd_scanExp n2]; exact ⟨rfl, h⟩
+
+/-- `scanNumber` behind the leading white space -/
+def numCore (x : List Char) : Option (Rat × List Char) :=
+  let s := scanSign x
+  let ip := s.2.takeWhile isDigit
+  if ip.isEmpty then none
+  else
+    let f := scanFrac (s.2.dropWhile isDigit)
+    let e := scanExp f.2
+    some (decVal s.1 ip f.1 e.1, e.2)
+
+theorem scanNumber_eq (t : List Char) : scanNumber t = numCore (skipWs t) := rfl
+
+theorem gap_number (ok : GapOK ws ws' q) {t t' : List Char} (h : GapR ws ws' q t t') :
+    ORel (GapR ws ws' q) (scanNumber t) (scanNumber t') := by
+  refine gap_scanner ok skips_number consumes_number (fun d r r' hd hg => ?_) h
+  simp only [scanNumber_eq, skipWs_nonblank _ hd, numCore]
+  obtain ⟨s1, s2⟩ := hg.scanSign ok
+  obtain ⟨i1, i2⟩ := s2.takeWhile ok digit_ord
+  obtain ⟨f1, f2⟩ := i2.scanFrac ok
+  obtain ⟨e1, e2⟩ := f2.scanExp ok
+  rw [i1]
+  split
+  · trivial
+  · exact ⟨by simp only; rw [s1, f1, e1], Or.inl e2⟩
+
+/-! #### string literals and bracketed names -/
+
+theorem brTail_none_gap (ok : GapOK ws ws' q) {t t' : List Char} (h : brTail t = none) (hg : Gap ws ws' q t t') :
+    brTail t' = none := by
+  cases hc : t.contains ']' with
+  | false => exact brTail_none_of_not_contains (by rw [← hg.contains ok (c := ']') (by decide)]; exact hc)
+  | true =>
+    obtain ⟨r2, rfl⟩ := brTail_none_contains h hc
+    rcases hg.step ok with ⟨c, t1, t1', _, e1, rfl, _⟩ | ⟨n1, _⟩
+    · simp only [List.cons.injEq] at e1
+      rw [← e1.1]; exact brTail_empty _
+    · have h0 : ord ']' = true := by decide
+      have := n1 ']' r2 rfl; rw [h0] at this; cases this
+
+theorem gap_string (ok : GapOK ws ws' q) (qc : Char) (hq : qc = '\'' ∨ qc = '"') {t t' : List Char}
+    (h : GapR ws ws' q t t') : ORel (GapR ws ws' q) (scanString qc t) (scanString qc t') := by
+  refine gap_scanner ok (skips_string qc) (consumes_string qc) (fun d r r' hd hg => ?_) h
+  simp only [scanString, skipWs_nonblank _ hd]
+  by_cases hdq : d = qc
+  · subst hdq
+    have hsp : special d = true := by rcases hq with rfl | rfl <;> decide
+    rcases hg.inv ok hd with ⟨h1, _⟩ | ⟨_, raw, t1, t1', rfl, e2, hs, hg1⟩ | ⟨h3, _⟩ | ⟨_, hnc, r1, e2, hg1⟩ | ⟨h3, _⟩
+    · rw [hsp] at h1; cases h1
+    · simp only [List.cons.injEq, true_and] at e2
+      subst e2
+      have hc := hg1.contains ok hd
+      have hs' := (strBody_local d _ _ _ hs).2 t1' hc.symm
+      simp only [if_true, hs, hs', Option.map_some]
+      exact ⟨rfl, Or.inl hg1⟩
+    · subst h3; rcases hq with h | h <;> cases h
+    · simp only [List.cons.injEq, true_and] at e2
+      subst e2
+      have hc := hg1.contains ok hd
+      simp only [if_true, (strBody_none_iff d r).mpr hnc, (strBody_none_iff d r').mpr (by rw [← hc]; exact hnc),
+        Option.map_none]
+      trivial
+    · subst h3; rcases hq with h | h <;> cases h
+  · simp [hdq, ORel]
+
+theorem gap_variableEx (ok : GapOK ws ws' q) {t t' : List Char} (h : GapR ws ws' q t t') :
+    ORel (GapR ws ws' q) (scanVariableEx t) (scanVariableEx t') := by
+  refine gap_scanner ok skips_variableEx consumes_variableEx (fun d r r' hd hg => ?_) h
+  simp only [scanVariableEx_eq, skipWs_nonblank _ hd]
+  by_cases hdq : d = '['
+  · subst hdq
+    rcases hg.inv ok hd with ⟨h1, _⟩ | ⟨h2, _⟩ | ⟨_, lit, n, t1, t1', rfl, e2, hs, hg1⟩ | ⟨h2, _⟩ | ⟨_, hnone, r1, e2, hg1⟩
+    · have h0 : special '[' = true := by decide
+      rw [h0] at h1; cases h1
+    · rcases h2 with h | h <;> cases h
+    · simp only [List.cons.injEq, true_and] at e2
+      subst e2
+      have hc := hg1.contains ok (c := ']') (by decide)
+      obtain ⟨lit0, _, hx, hl⟩ := brTail_local _ _ _ hs
+      have : lit = lit0 := List.append_cancel_right hx
+      subst this
+      simp only [if_true, hs, hl t1' hc.symm]
+      exact ⟨rfl, Or.inl hg1⟩
+    · rcases h2 with h | h <;> cases h
+    · simp only [List.cons.injEq, true_and] at e2
+      subst e2
+      simp only [if_true, hnone, brTail_none_gap ok hnone hg1]
+      trivial
+  · simp [hdq, ORel]
+
+/-- every token scanner respects `GapR` -/
+theorem gap_respects (ok : GapOK ws ws' q) : Respects (GapR ws ws' q) where
+  binOp h := gap_binOp ok h
+  unOp h := gap_unOp ok h
+  groupOpen h := ORel1_of_unit (gap_char ok '(' (by decide) h)
+  close h := ORel1_of_unit (gap_char ok ')' (by decide) h)
+  comma h := ORel1_of_unit (gap_char ok ',' (by decide) h)
+  funcOpen h := gap_funcOpen ok h
+  number h := gap_number ok h
+  strS h := gap_string ok '\'' (Or.inl rfl) h
+  strD h := gap_string ok '"' (Or.inr rfl) h
+  var h := gap_variable ok h
+  varEx h := gap_variableEx ok h
+
+end GapSec
+
+end C10
+
+namespace C10
+open Text Scan
+
+/-! ## trailing blanks and the statement recognisers -/
+
+theorem takeDrop_append_of_ne {α : Type} (p : α → Bool) : ∀ (t ws : List α), t.dropWhile p ≠ [] →
+    (t ++ ws).takeWhile p = t.takeWhile p ∧ (t ++ ws).dropWhile p = t.dropWhile p ++ ws
+  | [], _, h => by simp at h
+  | a :: as, ws, h => by
+    by_cases ha : p a = true
+    · have h' : as.dropWhile p ≠ [] := by simpa [ha] using h
+      have := takeDrop_append_of_ne p as ws h'
+      simp [ha, this.1, this.2]
+    · simp [ha]
+
+def forIdx (r : Chars) : Option Chars × Chars :=
+  match lstripL r with
+  | ',' :: r1 =>
+    match ident? (lstripL r1) with
+    | some (ix, r2) => (some ix, r2)
+    | none => (none, r)
+  | _ => (none, r)
+
+def forTail (len : Nat) (value : Chars) (index : Option Chars) (r : Chars) : Option Shape :=
+  (ws1? r).bind fun r => (keyword? "in" r).bind fun r =>
+    (exprColon? r).map fun p => .forBegin value index (len - r.length + p.1) p.2
+
+theorem for?_eq (s : Chars) : for? s = (keyword? "for" s).bind fun r => (ws1? r).bind fun r => (ident? r).bind fun p =>
+    forTail s.length p.1 (forIdx p.2).1 (forIdx p.2).2 := by
+  unfold for?
+  cases keyword? "for" s with
+  | none => rfl
+  | some r =>
+    dsimp only [Option.bind_some]
+    cases ws1? r with
+    | none => rfl
+    | some r =>
+      dsimp only [Option.bind_some]
+      cases ident? r with
+      | none => rfl
+      | some p =>
+        obtain ⟨value, r2⟩ := p
+        dsimp only [Option.bind_some, forTail, forIdx]
+        cases ws1? _ with
+        | none => rfl
+        | some r5 =>
+          dsimp only [Option.bind_some]
+          cases keyword? "in" r5 with
+          | none => rfl
+          | some r6 =>
+            dsimp only [Option.bind_some]
+            cases exprColon? r6 with
+            | none => rfl
+            | some p => rfl
+
+def fnAsync (s : Chars) : Bool × Chars :=
+  match keyword? "async" s with
+  | some r => (true, lstripL r)
+  | none => (false, s)
+
+def fnOpen (r : Chars) : Option Chars :=
+  match lstripL r with
+  | '(' :: r => some (lstripL r)
+  | _ => none
+
+def fnArgs (r : Chars) : List Chars × Chars :=
+  match ident? r with
+  | some (a, r') => let (as, r'') := Scan.argsLoop r'.length r'; (a :: as, r'')
+  | none => ([], r)
+
+def fnDots (r : Chars) : Bool × Chars :=
+  match keyword? "..." (lstripL r) with
+  | some r' => (true, r')
+  | none => (false, r)
+
+def fnClose (name : Chars) (args : List Chars) (laa isAsync : Bool) (r : Chars) : Option Shape :=
+  match lstripL r with
+  | ')' :: r =>
+    match lstripL r with
+    | ':' :: r => if allSpace r then some (.funcBegin name args laa isAsync) else none
+    | _ => none
+  | _ => none
+
+theorem funcBegin?_eq (s : Chars) : funcBegin? s =
+    (keyword? "function" (fnAsync s).2).bind fun r => (ws1? r).bind fun r => (ident? r).bind fun p =>
+      (fnOpen p.2).bind fun r =>
+        fnClose p.1 (fnArgs r).1 (fnDots (fnArgs r).2).1 (fnAsync s).1 (fnDots (fnArgs r).2).2 := by
+  unfold funcBegin?
+  dsimp only [fnAsync]
+  cases keyword? "function" _ with
+  | none => rfl
+  | some r =>
+    dsimp only [Option.bind_some]
+    cases ws1? r with
+    | none => rfl
+    | some r =>
+      dsimp only [Option.bind_some]
+      cases ident? r with
+      | none => rfl
+      | some p =>
+        obtain ⟨name, r2⟩ := p
+        dsimp only [Option.bind_some, fnOpen]
+        cases h : lstripL r2 with
+        | nil => rfl
+        | cons c cs =>
+          by_cases hc : c = '('
+          · subst hc
+            rfl
+          · split
+            · simp_all
+            · split
+              · simp_all
+              · rfl
+
+section Trail
+variable {ws : Chars} (hws : allSpace ws = true)
+include hws
+
+theorem ws_head_space {w : Char} {ws1 : Chars} (e : ws = w :: ws1) : isSpace w = true := by
+  subst e; simp [allSpace] at hws; exact hws.1
+
+theorem ident?_append_ws (x : Chars) : ident? (x ++ ws) = (ident? x).map (fun p => (p.1, p.2 ++ ws)) := by
+  cases x with
+  | nil =>
+    cases hw : ws with
+    | nil => rfl
+    | cons w ws1 =>
+      have h1 := ws_head_space hws hw
+      have : isIdStart w = false := by
+        cases hi : isIdStart w with
+        | false => rfl
+        | true => have := space_not_word h1; rw [idStart_isWord hi] at this; cases this
+      simp [ident?, this]
+  | cons c cs =>
+    obtain ⟨h1, h2⟩ := word_ws_split hws
+    have key : ∀ l : Chars, List.takeWhile isWord (l ++ ws) = List.takeWhile isWord l ∧
+        List.dropWhile isWord (l ++ ws) = List.dropWhile isWord l ++ ws := by
+      intro l
+      induction l with
+      | nil => simp [h1, h2]
+      | cons a as ih => by_cases ha : isWord a = true <;> simp [ha, ih]
+    simp only [List.cons_append, ident?]
+    split
+    · simp [(key cs).1, (key cs).2]
+    · rfl
+
+/-- `\s+` then something that cannot start at the end of the text -/
+theorem ws1?_bind_append {β : Type} (next : Chars → Option β) (hnil : next [] = none) (r : Chars) :
+    (ws1? (r ++ ws)).bind next = (ws1? r).bind (fun x => if x = [] then none else next (x ++ ws)) := by
+  cases r with
+  | nil =>
+    cases hw : ws with
+    | nil => rfl
+    | cons w ws1 =>
+      have h1 := ws_head_space hws hw
+      have h2 : lstripL ws1 = [] := lstrip_allSpace (by rw [hw] at hws; simp [allSpace] at hws ⊢; exact hws.2)
+      simp [ws1?, h1, h2, hnil]
+  | cons c cs =>
+    simp only [List.cons_append, ws1?]
+    split
+    · simp only [Option.bind_some, lstrip_append_right cs ws hws]
+      split
+      · rename_i h0; simp [h0, hnil]
+      · rename_i h0; simp [h0]
+    · rfl
+
+theorem label?_append_ws (s : Chars) : label? (s ++ ws) = label? s := by
+  unfold label?
+  rw [ident?_append_ws hws]
+  cases ident? s with
+  | none => rfl
+  | some p =>
+    obtain ⟨name, r⟩ := p
+    simp only [Option.map_some, lstrip_append_right r ws hws]
+    cases h : lstripL r with
+    | nil => simp
+    | cons c cs =>
+      simp only [List.cons_append, reduceCtorEq, if_false]
+      by_cases hc : c = ':'
+      · subst hc; simp [allSpace_append, hws]
+      · split <;> simp_all
+
+theorem wsNameEnd?_append_ws (r : Chars) : wsNameEnd? (r ++ ws) = wsNameEnd? r := by
+  have key : ∀ x, (match ident? (x ++ ws) with
+      | some (name, r) => if allSpace r then some name else none
+      | none => none) = (match ident? x with
+      | some (name, r) => if allSpace r then some name else none
+      | none => none) := by
+    intro x
+    rw [ident?_append_ws hws]
+    cases ident? x with
+    | none => rfl
+    | some p => simp [allSpace_append, hws]
+  have e : ∀ y, wsNameEnd? y = (ws1? y).bind (fun r => match ident? r with
+      | some (name, r) => if allSpace r then some name else none
+      | none => none) := by
+    intro y; unfold wsNameEnd?; cases ws1? y <;> rfl
+  rw [e, e, ws1?_bind_append hws _ (by simp [ident?])]
+  cases ws1? r with
+  | none => rfl
+  | some x =>
+    simp only [Option.bind_some]
+    split
+    · rename_i h0; subst h0; simp [ident?]
+    · exact key x
+
+theorem splitLastParen_append_ws (r : Chars) :
+    splitLastParen (r ++ ws) = (splitLastParen r).map (fun p => (p.1, p.2 ++ ws)) := by
+  have hnp : ∀ a ∈ ws.reverse, (a != ')') = true := by
+    intro a ha
+    have : isSpace a = true := by simp [allSpace] at hws; exact hws a (by simpa using ha)
+    cases h : a != ')' with
+    | true => rfl
+    | false => simp at h; subst h; revert this; decide
+  unfold splitLastParen
+  simp only [List.reverse_append, List.dropWhile_append_of_pos hnp, List.takeWhile_append_of_pos hnp]
+  cases List.dropWhile (fun x => x != ')') r.reverse with
+  | nil => rfl
+  | cons a as => simp
+
+theorem jump?_append_ws (s : Chars) : jump? (s ++ ws) = jump? s := by
+  unfold jump?
+  rw [keyword?_append_ws "jump" s ws (by decide) hws]
+  cases keyword? "jump" s with
+  | none => rfl
+  | some r =>
+    simp only [Option.map_some, wsNameEnd?_append_ws hws]
+    cases wsNameEnd? r with
+    | some name => rfl
+    | none =>
+      simp only [keyword?_append_ws "if" r ws (by decide) hws]
+      cases keyword? "if" r with
+      | none => rfl
+      | some r1 =>
+        simp only [Option.map_some, lstrip_append_right r1 ws hws]
+        cases h : lstripL r1 with
+        | nil => simp
+        | cons c cs =>
+          simp only [List.cons_append, reduceCtorEq, if_false]
+          by_cases hc : c = '('
+          · subst hc
+            simp only [splitLastParen_append_ws hws]
+            cases splitLastParen cs with
+            | none => rfl
+            | some p =>
+              obtain ⟨e, tail⟩ := p
+              simp only [Option.map_some, wsNameEnd?_append_ws hws, List.length_append]
+              have : s.length + ws.length - (cs.length + ws.length) = s.length - cs.length := by omega
+              rw [this]
+          · split <;> simp_all
+
+theorem include?_append_ws (s : Chars) : include? (s ++ ws) = include? s := by
+  have hng : ∀ a ∈ ws, (a != '>') = true := by
+    intro a ha
+    have : isSpace a = true := by simp [allSpace] at hws; exact hws a ha
+    cases h : a != '>' with
+    | true => rfl
+    | false => simp at h; subst h; revert this; decide
+  have hd : List.dropWhile (fun x => x != '>') ws = [] := by
+    rw [dropWhile_eq_nil_iff']; exact hng
+  unfold include?
+  rw [keyword?_append_ws "include" s ws (by decide) hws]
+  cases keyword? "include" s with
+  | none => rfl
+  | some r =>
+    simp only [Option.map_some]
+    cases r with
+    | nil =>
+      cases hw : ws with
+      | nil => rfl
+      | cons w ws1 =>
+        have h1 := ws_head_space hws hw
+        have h2 : lstripL ws1 = [] := lstrip_allSpace (by rw [hw] at hws; simp [allSpace] at hws ⊢; exact hws.2)
+        simp [ws1?, h1, h2]
+    | cons c cs =>
+      simp only [List.cons_append, ws1?]
+      by_cases hc : isSpace c = true
+      · simp only [hc, if_true, lstrip_append_right cs ws hws]
+        cases hl : lstripL cs with
+        | nil => simp
+        | cons d t =>
+          simp only [List.cons_append, reduceCtorEq, if_false]
+          by_cases h1 : d = '\''
+          · subst h1
+            simp only [rev_dropWhile_append_ws t ws hws]
+          · by_cases h2 : d = '<'
+            · subst h2
+              cases hdt : List.dropWhile (fun x => x != '>') t with
+              | nil => simp [List.dropWhile_append, hdt, hd]
+              | cons a as =>
+                obtain ⟨k1, k2⟩ := takeDrop_append_of_ne (fun x => x != '>') t ws (by rw [hdt]; simp)
+                simp [k1, k2, hdt, allSpace_append, hws]
+            · split
+              · simp_all
+              · simp_all
+              · split <;> simp_all
+      · simp [hc]
+
+omit hws in
+theorem ident?_decomp {s name r : Chars} (h : ident? s = some (name, r)) : s = name ++ r := by
+  cases s with
+  | nil => simp [ident?] at h
+  | cons c cs =>
+    simp only [ident?] at h
+    split at h
+    · simp only [Option.some.injEq, Prod.mk.injEq] at h
+      obtain ⟨rfl, rfl⟩ := h
+      simp [List.takeWhile_append_dropWhile]
+    · cases h
+
+omit hws in
+theorem lastNS_eq_of_assign_blank {s name r1 r3 : Chars} (h1 : ident? s = some (name, r1))
+    (h2 : lstripL r1 = '=' :: r3) (h3 : lstripL r3 = []) : lastNS s = some '=' := by
+  obtain ⟨wsA, _, hA⟩ := lstrip_decomp r1
+  have hr3 : allSpace r3 = true := by
+    rw [← firstNS_none_iff]; simp [firstNS, h3]
+  rw [ident?_decomp h1, hA, h2, lastNS_append, lastNS_append,
+    show ('=' :: r3) = ['='] ++ r3 from rfl, lastNS_append, lastNS_allSpace hr3]
+  simp [lastNS, isSpace, isSpaceN]
+
+/-- append blanks to an expression text that runs to the end of the line (assignment, `return`) -/
+def addTrailS (ws : Chars) : Shape → Shape
+  | .assign n off e => .assign n off (e ++ ws)
+  | .ret (some (off, e)) => .ret (some (off, e ++ ws))
+  | s => s
+
+theorem assign?_append_ws (s : Chars) (hne : lastNS s ≠ some '=') :
+    assign? (s ++ ws) = (assign? s).map (addTrailS ws) := by
+  unfold assign?
+  rw [ident?_append_ws hws]
+  cases hi : ident? s with
+  | none => rfl
+  | some p =>
+    obtain ⟨name, r1⟩ := p
+    simp only [Option.map_some, lstrip_append_right r1 ws hws]
+    cases h : lstripL r1 with
+    | nil => simp
+    | cons c r3 =>
+      simp only [List.cons_append, reduceCtorEq, if_false]
+      by_cases hc : c = '='
+      · subst hc
+        simp only [lstrip_append_right r3 ws hws]
+        cases h3 : lstripL r3 with
+        | nil => exact absurd (lastNS_eq_of_assign_blank hi h h3) hne
+        | cons d e =>
+          simp only [List.cons_append, reduceCtorEq, if_false, Option.map_some, addTrailS, List.length_append,
+            List.length_cons]
+          congr 2; omega
+      · split <;> simp_all
+
+theorem return?_append_ws' (s : Chars) : return? (s ++ ws) = (return? s).map (addTrailS ws) := by
+  rw [return?_append_ws s ws hws]
+  unfold return?
+  cases keyword? "return" s with
+  | none => rfl
+  | some r =>
+    simp only
+    split
+    · rfl
+    · split
+      · split <;> rfl
+      · rfl
+
+theorem forIdx_append_ws (r : Chars) : forIdx (r ++ ws) = ((forIdx r).1, (forIdx r).2 ++ ws) := by
+  unfold forIdx
+  rw [lstrip_append_right r ws hws]
+  cases h : lstripL r with
+  | nil => simp
+  | cons c cs =>
+    simp only [List.cons_append, reduceCtorEq, if_false]
+    by_cases hc : c = ','
+    · subst hc
+      simp only [lstrip_append_right cs ws hws]
+      cases h2 : lstripL cs with
+      | nil => simp [ident?]
+      | cons d e =>
+        simp only [reduceCtorEq, if_false, ident?_append_ws hws]
+        cases ident? (d :: e) with
+        | none => rfl
+        | some p => rfl
+    · split <;> simp_all
+
+theorem forTail_append_ws (len : Nat) (value : Chars) (index : Option Chars) (r : Chars) :
+    forTail (len + ws.length) value index (r ++ ws) = forTail len value index r := by
+  unfold forTail
+  rw [ws1?_bind_append hws _ (by simp [keyword?])]
+  congr 1
+  funext x
+  by_cases hx : x = []
+  · subst hx; simp [keyword?]
+  · simp only [hx, if_false, keyword?_append_ws "in" x ws (by decide) hws]
+    cases keyword? "in" x with
+    | none => rfl
+    | some r6 =>
+      simp only [Option.map_some, Option.bind_some, exprColon?_append_ws r6 ws hws, List.length_append]
+      have : len + ws.length - (r6.length + ws.length) = len - r6.length := by omega
+      rw [this]
+
+theorem for?_append_ws (s : Chars) : for? (s ++ ws) = for? s := by
+  rw [for?_eq, for?_eq, keyword?_append_ws "for" s ws (by decide) hws]
+  cases keyword? "for" s with
+  | none => rfl
+  | some r0 =>
+    simp only [Option.map_some, Option.bind_some]
+    rw [ws1?_bind_append hws _ (by simp [ident?])]
+    congr 1
+    funext x
+    by_cases hx : x = []
+    · subst hx; simp [ident?]
+    · simp only [hx, if_false, ident?_append_ws hws]
+      cases ident? x with
+      | none => rfl
+      | some p =>
+        simp only [Option.map_some, Option.bind_some, forIdx_append_ws hws, List.length_append,
+          forTail_append_ws hws]
+
+omit hws in
+theorem ident?_shorter {x name r : Chars} (h : ident? x = some (name, r)) : r.length < x.length := by
+  cases x with
+  | nil => simp [ident?] at h
+  | cons c cs =>
+    simp only [ident?] at h
+    split at h
+    · simp only [Option.some.injEq, Prod.mk.injEq] at h
+      obtain ⟨_, rfl⟩ := h
+      have := (List.dropWhile_sublist isWord (l := cs)).length_le
+      simp; omega
+    · cases h
+
+omit hws in
+/-- the argument loop of the `function` pattern never needs more fuel than the length of the text -/
+theorem argsLoop_fuel_step : ∀ (n : Nat) (r : Chars), r.length ≤ n → Scan.argsLoop (n + 1) r = Scan.argsLoop n r := by
+  intro n
+  induction n with
+  | zero =>
+    intro r hr
+    have : r = [] := List.length_eq_zero_iff.mp (by omega)
+    subst this; simp [Scan.argsLoop, lstripL]
+  | succ n ih =>
+    intro r hr
+    rw [Scan.argsLoop, Scan.argsLoop]
+    cases h : lstripL r with
+    | nil => rfl
+    | cons c r1 =>
+      have h1 : r1.length < r.length := by
+        have := lstrip_length_le r; rw [h] at this; simp at this; omega
+      by_cases hc : c = ','
+      · subst hc
+        simp only []
+        cases h2 : ident? (lstripL r1) with
+        | none => rfl
+        | some p =>
+          obtain ⟨a, r2⟩ := p
+          have h3 := ident?_shorter h2
+          have h4 := lstrip_length_le r1
+          simp only [ih r2 (by omega)]
+      · split
+        · simp_all
+        · rfl
+
+omit hws in
+theorem argsLoop_fuel (r : Chars) (k : Nat) : Scan.argsLoop (r.length + k) r = Scan.argsLoop r.length r := by
+  induction k with
+  | zero => rfl
+  | succ k ih => rw [← Nat.add_assoc, argsLoop_fuel_step _ _ (by omega), ih]
+
+theorem argsLoop_append_ws : ∀ (n : Nat) (r : Chars),
+    Scan.argsLoop n (r ++ ws) = ((Scan.argsLoop n r).1, (Scan.argsLoop n r).2 ++ ws) := by
+  intro n
+  induction n with
+  | zero => intro r; rfl
+  | succ n ih =>
+    intro r
+    rw [Scan.argsLoop, Scan.argsLoop, lstrip_append_right r ws hws]
+    cases h : lstripL r with
+    | nil => simp
+    | cons c r1 =>
+      simp only [List.cons_append, reduceCtorEq, if_false]
+      by_cases hc : c = ','
+      · subst hc
+        simp only [lstrip_append_right r1 ws hws]
+        cases h2 : lstripL r1 with
+        | nil => simp [ident?]
+        | cons d e =>
+          simp only [reduceCtorEq, if_false, ident?_append_ws hws]
+          cases ident? (d :: e) with
+          | none => rfl
+          | some p => simp only [Option.map_some, ih]
+      · split
+        · simp_all
+        · split
+          · simp_all
+          · rfl
+
+theorem fnArgs_append_ws (x : Chars) : fnArgs (x ++ ws) = ((fnArgs x).1, (fnArgs x).2 ++ ws) := by
+  unfold fnArgs
+  rw [ident?_append_ws hws]
+  cases ident? x with
+  | none => rfl
+  | some p =>
+    obtain ⟨a, r'⟩ := p
+    simp only [Option.map_some, List.length_append, argsLoop_append_ws hws, argsLoop_fuel]
+
+theorem fnDots_append_ws (y : Chars) : fnDots (y ++ ws) = ((fnDots y).1, (fnDots y).2 ++ ws) := by
+  unfold fnDots
+  rw [lstrip_append_right y ws hws]
+  cases h : lstripL y with
+  | nil => simp [keyword?]
+  | cons c cs =>
+    simp only [reduceCtorEq, if_false, keyword?_append_ws "..." (c :: cs) ws (by decide) hws]
+    cases keyword? "..." (c :: cs) with
+    | none => rfl
+    | some r' => rfl
+
+theorem fnClose_append_ws (name : Chars) (args : List Chars) (laa isAsync : Bool) (z : Chars) :
+    fnClose name args laa isAsync (z ++ ws) = fnClose name args laa isAsync z := by
+  unfold fnClose
+  rw [lstrip_append_right z ws hws]
+  cases h : lstripL z with
+  | nil => simp
+  | cons c cs =>
+    simp only [List.cons_append, reduceCtorEq, if_false]
+    by_cases hc : c = ')'
+    · subst hc
+      simp only [lstrip_append_right cs ws hws]
+      cases h2 : lstripL cs with
+      | nil => simp
+      | cons d e =>
+        simp only [List.cons_append, reduceCtorEq, if_false]
+        by_cases hd : d = ':'
+        · subst hd; simp [allSpace_append, hws]
+        · split <;> simp_all
+    · split <;> simp_all
+
+theorem fnAsync_append_ws (s : Chars) :
+    (fnAsync (s ++ ws)).1 = (fnAsync s).1 ∧
+    keyword? "function" (fnAsync (s ++ ws)).2 = (keyword? "function" (fnAsync s).2).map (· ++ ws) := by
+  unfold fnAsync
+  rw [keyword?_append_ws "async" s ws (by decide) hws]
+  cases keyword? "async" s with
+  | none => exact ⟨rfl, keyword?_append_ws "function" s ws (by decide) hws⟩
+  | some r =>
+    simp only [Option.map_some, lstrip_append_right r ws hws, true_and]
+    cases h : lstripL r with
+    | nil => simp [keyword?]
+    | cons c cs =>
+      simp only [reduceCtorEq, if_false]
+      exact keyword?_append_ws "function" (c :: cs) ws (by decide) hws
+
+theorem fnOpen_append_ws (r : Chars) : fnOpen (r ++ ws) = (fnOpen r).map (fun x => if x = [] then [] else x ++ ws) := by
+  unfold fnOpen
+  rw [lstrip_append_right r ws hws]
+  cases h : lstripL r with
+  | nil => simp
+  | cons c cs =>
+    simp only [List.cons_append, reduceCtorEq, if_false]
+    by_cases hc : c = '('
+    · subst hc; simp only [lstrip_append_right cs ws hws, Option.map_some]
+    · split <;> simp_all
+
+theorem funcBegin?_append_ws (s : Chars) : funcBegin? (s ++ ws) = funcBegin? s := by
+  rw [funcBegin?_eq, funcBegin?_eq]
+  obtain ⟨ha, hk⟩ := fnAsync_append_ws hws s
+  rw [ha, hk]
+  cases keyword? "function" (fnAsync s).2 with
+  | none => rfl
+  | some r0 =>
+    simp only [Option.map_some, Option.bind_some]
+    rw [ws1?_bind_append hws _ (by simp [ident?])]
+    congr 1
+    funext x
+    by_cases hx : x = []
+    · subst hx; simp [ident?]
+    · simp only [hx, if_false, ident?_append_ws hws]
+      cases ident? x with
+      | none => rfl
+      | some p =>
+        simp only [Option.map_some, Option.bind_some, fnOpen_append_ws hws]
+        cases fnOpen p.2 with
+        | none => rfl
+        | some y =>
+          simp only [Option.map_some, Option.bind_some]
+          by_cases hy : y = []
+          · simp [hy]
+          · simp only [hy, if_false, fnArgs_append_ws hws, fnDots_append_ws hws, fnClose_append_ws hws]
+
+/-! ### the cascade -/
+
+omit hws in
+theorem map_of_plain {o o' : Option Shape} (h : o' = o) (hp : ∀ sh, o = some sh → addTrailS ws sh = sh) :
+    o' = o.map (addTrailS ws) := by
+  subst h
+  cases o' with
+  | none => rfl
+  | some sh => simp [hp sh rfl]
+
+omit hws in
+theorem orElse_map (f : Shape → Shape) (a b : Option Shape) : (a.map f <|> b.map f) = (a <|> b).map f := by
+  cases a <;> rfl
+
+omit hws in
+theorem kwOnly?_plain (kw : String) (sh0 : Shape) (hp : addTrailS ws sh0 = sh0) (s : Chars) :
+    ∀ sh, kwOnly? kw sh0 s = some sh → addTrailS ws sh = sh := by
+  intro sh h
+  unfold kwOnly? at h
+  split at h
+  · split at h
+    · cases h; exact hp
+    · cases h
+  · cases h
+
+omit hws in
+theorem kwExprColon?_plain (kw : String) (mk : Nat → Chars → Shape) (hp : ∀ n e, addTrailS ws (mk n e) = mk n e) (s : Chars) :
+    ∀ sh, kwExprColon? kw mk s = some sh → addTrailS ws sh = sh := by
+  intro sh h
+  unfold kwExprColon? at h
+  split at h
+  · split at h
+    · cases h; exact hp _ _
+    · cases h
+  · cases h
+
+omit hws in
+theorem else?_plain (s : Chars) : ∀ sh, else? s = some sh → addTrailS ws sh = sh := by
+  intro sh h
+  unfold else? at h
+  split at h
+  · split at h
+    · split at h
+      · cases h; rfl
+      · cases h
+    · cases h
+  · cases h
+
+omit hws in
+theorem label?_plain (s : Chars) : ∀ sh, label? s = some sh → addTrailS ws sh = sh := by
+  intro sh h
+  unfold label? at h
+  split at h
+  · split at h
+    · split at h
+      · cases h; rfl
+      · cases h
+    · cases h
+  · cases h
+
+omit hws in
+theorem for?_plain (s : Chars) : ∀ sh, for? s = some sh → addTrailS ws sh = sh := by
+  intro sh h
+  rw [for?_eq] at h
+  simp only [Option.bind_eq_some_iff, forTail, Option.map_eq_some_iff] at h
+  obtain ⟨_, _, _, _, _, _, _, _, _, _, _, _, rfl⟩ := h
+  rfl
+
+omit hws in
+theorem funcBegin?_plain (s : Chars) : ∀ sh, funcBegin? s = some sh → addTrailS ws sh = sh := by
+  intro sh h
+  rw [funcBegin?_eq] at h
+  simp only [Option.bind_eq_some_iff] at h
+  obtain ⟨_, _, _, _, _, _, _, _, h⟩ := h
+  unfold fnClose at h
+  split at h
+  · split at h
+    · split at h
+      · cases h; rfl
+      · cases h
+    · cases h
+  · cases h
+
+omit hws in
+theorem jump?_plain (s : Chars) : ∀ sh, jump? s = some sh → addTrailS ws sh = sh := by
+  intro sh h
+  unfold jump? at h
+  repeat' split at h
+  all_goals first | cases h; rfl | cases h
+
+omit hws in
+theorem include?_plain (s : Chars) : ∀ sh, include? s = some sh → addTrailS ws sh = sh := by
+  intro sh h
+  unfold include? at h
+  repeat' split at h
+  all_goals try (simp only [] at h)
+  all_goals try (split at h)
+  all_goals first | (cases h; rfl) | cases h
+
+/-- **The statement cascade and trailing blanks**: the same pattern matches with the same groups; an expression group that
+runs to the end of the line (assignment, `return`) gets the blanks appended.  Excluded: a line that ends in `=`
+(`a =` is an expression statement, `a = ` the assignment of the expression `' '`). -/
+theorem shapeS_append_ws (s : Chars) (hne : lastNS s ≠ some '=') : shapeS (s ++ ws) = addTrailS ws (shapeS s) := by
+  unfold shapeS
+  rw [assign?_append_ws hws s hne,
+    map_of_plain (ws := ws) (funcBegin?_append_ws hws s) (funcBegin?_plain s),
+    map_of_plain (ws := ws) (kwOnly?_append_ws "endfunction" .funcEnd s ws (by decide) hws) (kwOnly?_plain _ _ rfl s),
+    map_of_plain (ws := ws) (kwExprColon?_append_ws "if" .ifBegin s ws (by decide) hws) (kwExprColon?_plain _ _ (fun _ _ => rfl) s),
+    map_of_plain (ws := ws) (kwExprColon?_append_ws "elif" .elif s ws (by decide) hws) (kwExprColon?_plain _ _ (fun _ _ => rfl) s),
+    map_of_plain (ws := ws) (else?_append_ws s ws hws) (else?_plain s),
+    map_of_plain (ws := ws) (kwOnly?_append_ws "endif" .endif s ws (by decide) hws) (kwOnly?_plain _ _ rfl s),
+    map_of_plain (ws := ws) (kwExprColon?_append_ws "while" .whileBegin s ws (by decide) hws) (kwExprColon?_plain _ _ (fun _ _ => rfl) s),
+    map_of_plain (ws := ws) (kwOnly?_append_ws "endwhile" .endwhile s ws (by decide) hws) (kwOnly?_plain _ _ rfl s),
+    map_of_plain (ws := ws) (for?_append_ws hws s) (for?_plain s),
+    map_of_plain (ws := ws) (kwOnly?_append_ws "endfor" .endfor s ws (by decide) hws) (kwOnly?_plain _ _ rfl s),
+    map_of_plain (ws := ws) (kwOnly?_append_ws "break" .break_ s ws (by decide) hws) (kwOnly?_plain _ _ rfl s),
+    map_of_plain (ws := ws) (kwOnly?_append_ws "continue" .continue_ s ws (by decide) hws) (kwOnly?_plain _ _ rfl s),
+    map_of_plain (ws := ws) (label?_append_ws hws s) (label?_plain s),
+    map_of_plain (ws := ws) (jump?_append_ws hws s) (jump?_plain s),
+    return?_append_ws' hws s,
+    map_of_plain (ws := ws) (include?_append_ws hws s) (include?_plain s)]
+  simp only [orElse_map]
+  cases (assign? s <|> funcBegin? s <|> kwOnly? "endfunction" .funcEnd s <|>
+   kwExprColon? "if" .ifBegin s <|> kwExprColon? "elif" .elif s <|> else? s <|> kwOnly? "endif" .endif s <|>
+   kwExprColon? "while" .whileBegin s <|> kwOnly? "endwhile" .endwhile s <|>
+   for? s <|> kwOnly? "endfor" .endfor s <|> kwOnly? "break" .break_ s <|> kwOnly? "continue" .continue_ s <|>
+   label? s <|> jump? s <|> return? s <|> include? s) <;> rfl
+
+end Trail
+
+
+/-! ## trailing blanks and the shape of a line; assignments -/
+
+
+theorem addTrailS_shift (ws : Chars) (sh : Shape) (k : Nat) : (addTrailS ws sh).shift k = addTrailS ws (sh.shift k) := by
+  cases sh with
+  | jump n c => cases c with
+    | none => rfl
+    | some p => rfl
+  | ret c => cases c with
+    | none => rfl
+    | some p => rfl
+  | _ => rfl
+
+/-! ### assignments: the pattern captures the same groups whatever the expression text is -/
+
+theorem orElse_some {a b : Option Shape} {sh : Shape} (h : (a <|> b) = some sh) : a = some sh ∨ b = some sh := by
+  cases a with
+  | none => exact Or.inr h
+  | some x => exact Or.inl h
+
+theorem plain_not_assign {sh : Shape} (h : addTrailS [' '] sh = sh) (n : Chars) (o : Nat) (e : Chars) : sh ≠ .assign n o e := by
+  intro hs; subst hs
+  simp [addTrailS] at h
+
+theorem shapeS_assign_inv {s name e : Chars} {off : Nat} (h : shapeS s = .assign name off e) :
+    assign? s = some (.assign name off e) := by
+  unfold shapeS at h
+  cases ha : assign? s with
+  | some sh => rw [ha] at h; simpa using h
+  | none =>
+    exfalso
+    rw [ha] at h
+    have hnone : ∀ X : Option Shape, ((none : Option Shape) <|> X) = X := fun X => rfl
+    rw [hnone] at h
+    have hx : ∀ {X : Option Shape}, X.getD .exprStmt = .assign name off e → X = some (.assign name off e) := by
+      intro X hX; cases X with
+      | none => cases hX
+      | some y => simpa using hX
+    have h' := hx h
+    rcases orElse_some h' with h1 | h'
+    · exact plain_not_assign (funcBegin?_plain (ws := [' ']) s _ h1) _ _ _ rfl
+    rcases orElse_some h' with h1 | h'
+    · exact plain_not_assign (kwOnly?_plain (ws := [' ']) _ _ rfl s _ h1) _ _ _ rfl
+    rcases orElse_some h' with h1 | h'
+    · exact plain_not_assign (kwExprColon?_plain (ws := [' ']) _ _ (fun _ _ => rfl) s _ h1) _ _ _ rfl
+    rcases orElse_some h' with h1 | h'
+    · exact plain_not_assign (kwExprColon?_plain (ws := [' ']) _ _ (fun _ _ => rfl) s _ h1) _ _ _ rfl
+    rcases orElse_some h' with h1 | h'
+    · exact plain_not_assign (else?_plain (ws := [' ']) s _ h1) _ _ _ rfl
+    rcases orElse_some h' with h1 | h'
+    · exact plain_not_assign (kwOnly?_plain (ws := [' ']) _ _ rfl s _ h1) _ _ _ rfl
+    rcases orElse_some h' with h1 | h'
+    · exact plain_not_assign (kwExprColon?_plain (ws := [' ']) _ _ (fun _ _ => rfl) s _ h1) _ _ _ rfl
+    rcases orElse_some h' with h1 | h'
+    · exact plain_not_assign (kwOnly?_plain (ws := [' ']) _ _ rfl s _ h1) _ _ _ rfl
+    rcases orElse_some h' with h1 | h'
+    · exact plain_not_assign (for?_plain (ws := [' ']) s _ h1) _ _ _ rfl
+    rcases orElse_some h' with h1 | h'
+    · exact plain_not_assign (kwOnly?_plain (ws := [' ']) _ _ rfl s _ h1) _ _ _ rfl
+    rcases orElse_some h' with h1 | h'
+    · exact plain_not_assign (kwOnly?_plain (ws := [' ']) _ _ rfl s _ h1) _ _ _ rfl
+    rcases orElse_some h' with h1 | h'
+    · exact plain_not_assign (kwOnly?_plain (ws := [' ']) _ _ rfl s _ h1) _ _ _ rfl
+    rcases orElse_some h' with h1 | h'
+    · exact plain_not_assign (label?_plain (ws := [' ']) s _ h1) _ _ _ rfl
+    rcases orElse_some h' with h1 | h'
+    · exact plain_not_assign (jump?_plain (ws := [' ']) s _ h1) _ _ _ rfl
+    rcases orElse_some h' with h1 | h1
+    · unfold return? at h1
+      repeat' split at h1
+      all_goals cases h1
+    · exact plain_not_assign (include?_plain (ws := [' ']) s _ h1) _ _ _ rfl
+
+theorem mem_takeWhile_true {α : Type} {p : α → Bool} : ∀ {l : List α} {x : α}, x ∈ l.takeWhile p → p x = true
+  | [], _, h => by simp at h
+  | a :: as, x, h => by
+    by_cases ha : p a = true
+    · simp only [List.takeWhile_cons, ha, if_true, List.mem_cons] at h
+      rcases h with rfl | h
+      · exact ha
+      · exact mem_takeWhile_true h
+    · simp [List.takeWhile_cons, ha] at h
+
+theorem lstrip_blank_append {b : Chars} (hb : allSpace b = true) (x : Chars) : lstripL (b ++ x) = lstripL x :=
+  lstrip_append_ws x hb
+
+theorem lstrip_self_head {e : Chars} (he : lstripL e = e) (hne : e ≠ []) : ∃ d e1, e = d :: e1 ∧ isSpace d = false := by
+  cases e with
+  | nil => exact absurd rfl hne
+  | cons d e1 =>
+    refine ⟨d, e1, rfl, ?_⟩
+    cases hd : isSpace d with
+    | false => rfl
+    | true =>
+      exfalso
+      have h1 := lstrip_length_le e1
+      have : (lstripL (d :: e1)).length = (d :: e1).length := by rw [he]
+      simp [lstripL, hd] at this
+      unfold lstripL at h1; omega
+
+/-- the assignment pattern on a line without leading blanks: any other non-empty expression text that starts with a
+non-blank is captured in the same way -/
+theorem assign?_replace {s name e : Chars} {off : Nat} (h : assign? s = some (.assign name off e)) (he : lstripL e = e)
+    (e' : Chars) (he' : lstripL e' = e') (hne' : e' ≠ []) :
+    s = s.take off ++ e ∧ off + e.length = s.length ∧ assign? (s.take off ++ e') = some (.assign name off e') := by
+  unfold assign? at h
+  cases hi : ident? s with
+  | none => rw [hi] at h; cases h
+  | some p =>
+    obtain ⟨nm, r1⟩ := p
+    rw [hi] at h
+    simp only at h
+    obtain ⟨b1, hb1, hr1⟩ := lstrip_decomp r1
+    cases h1 : lstripL r1 with
+    | nil => rw [h1] at h; cases h
+    | cons c r3 =>
+      rw [h1] at h
+      by_cases hc : c = '='
+      · subst hc
+        simp only at h
+        obtain ⟨b2, hb2, hr3⟩ := lstrip_decomp r3
+        cases h3 : lstripL r3 with
+        | nil =>
+          -- the degenerate expression `' '`: excluded by `he`
+          exfalso
+          rw [h3] at h
+          have hr3b : allSpace r3 = true := by rw [← firstNS_none_iff]; simp [firstNS, h3]
+          cases hg : r3.getLast? with
+          | none => rw [hg] at h; cases h
+          | some c =>
+            rw [hg] at h
+            simp only [Option.some.injEq, Shape.assign.injEq] at h
+            obtain ⟨_, _, rfl⟩ := h
+            have hcs : isSpace c = true := by
+              have := List.mem_of_getLast? hg
+              simp only [allSpace, List.all_eq_true] at hr3b; exact hr3b c this
+            simp [lstripL, hcs] at he
+        | cons d e0 =>
+          rw [h3] at h
+          simp only [Option.some.injEq, Shape.assign.injEq] at h
+          obtain ⟨rfl, rfl, rfl⟩ := h
+          -- the line is `name b1 = b2 e`
+          have hs : s = nm ++ (b1 ++ '=' :: (b2 ++ d :: e0)) := by
+            rw [ident?_decomp hi]; congr 1; rw [hr1, h1]; congr 2; rw [hr3, h3]
+          have hlen : s.length - (d :: e0).length = (nm ++ (b1 ++ '=' :: b2)).length := by
+            rw [hs]; simp; omega
+          have htake : s.take (s.length - (d :: e0).length) = nm ++ (b1 ++ '=' :: b2) := by
+            rw [hlen]; conv => lhs; rw [hs]
+            rw [show nm ++ (b1 ++ '=' :: (b2 ++ d :: e0)) = (nm ++ (b1 ++ '=' :: b2)) ++ (d :: e0) by simp]
+            exact List.take_left
+          refine ⟨?_, ?_, ?_⟩
+          · rw [htake]; conv => lhs; rw [hs]
+            simp
+          · rw [hlen, hs]; simp; omega
+          · rw [htake]
+            -- the identifier is found again
+            have hid : ident? (nm ++ (b1 ++ '=' :: b2) ++ e') = some (nm, b1 ++ '=' :: (b2 ++ e')) := by
+              cases s with
+              | nil => simp [ident?] at hi
+              | cons c0 cs =>
+                simp only [ident?] at hi
+                split at hi
+                · rename_i hc0
+                  simp only [Option.some.injEq, Prod.mk.injEq] at hi
+                  obtain ⟨rfl, _⟩ := hi
+                  have hw : ∀ x ∈ List.takeWhile isWord cs, isWord x = true := fun x hx => mem_takeWhile_true hx
+                  have hnw : List.takeWhile isWord (b1 ++ '=' :: (b2 ++ e')) = [] ∧
+                      List.dropWhile isWord (b1 ++ '=' :: (b2 ++ e')) = b1 ++ '=' :: (b2 ++ e') := by
+                    cases b1 with
+                    | nil =>
+                      have : isWord '=' = false := by decide
+                      simp [this]
+                    | cons w b1' =>
+                      have : isSpace w = true := by simp [allSpace] at hb1; exact hb1.1
+                      simp [space_not_word this]
+                  simp only [List.cons_append, List.append_assoc, ident?, hc0, if_true, Option.some.injEq, Prod.mk.injEq,
+                    List.cons.injEq, true_and]
+                  rw [List.takeWhile_append_of_pos hw, List.dropWhile_append_of_pos hw]
+                  simp [hnw.1, hnw.2]
+                · cases hi
+            obtain ⟨d', e1', rfl, hd'⟩ := lstrip_self_head he' hne'
+            unfold assign?
+            rw [hid]
+            have k1 : lstripL (b1 ++ '=' :: (b2 ++ d' :: e1')) = '=' :: (b2 ++ d' :: e1') := by
+              rw [lstrip_blank_append hb1]; simp [lstripL, show isSpace '=' = false by decide]
+            have k2 : lstripL (b2 ++ d' :: e1') = d' :: e1' := by
+              rw [lstrip_blank_append hb2]; exact he'
+            simp only [k1, k2, Option.some.injEq, Shape.assign.injEq, true_and, and_true]
+            rw [hlen]; simp; omega
+      · exfalso
+        split at h
+        · rename_i heq; simp only [List.cons.injEq] at heq; exact hc heq.1
+        · cases h
+
+theorem assign?_lstrip {x : Chars} {sh : Shape} (h : assign? x = some sh) : lstripL x = x := by
+  unfold assign? at h
+  cases x with
+  | nil => simp [ident?] at h
+  | cons c cs =>
+    cases hc : isIdStart c with
+    | false => simp [ident?, hc] at h
+    | true =>
+      have : isSpace c = false := by
+        cases hs : isSpace c with
+        | false => rfl
+        | true => have := space_not_word hs; rw [idStart_isWord hc] at this; cases this
+      simp [lstripL, this]
+
+theorem shapeS_of_assign {x : Chars} {sh : Shape} (h : assign? x = some sh) : shapeS x = sh := by
+  unfold shapeS; rw [h]; rfl
+
+theorem shift_assign_inv {sh : Shape} {k off : Nat} {name e : Chars} (h : sh.shift k = .assign name off e) :
+    ∃ off0, sh = .assign name off0 e ∧ off = off0 + k := by
+  cases sh with
+  | assign n o x => simp only [Shape.shift, Shape.assign.injEq] at h; obtain ⟨rfl, rfl, rfl⟩ := h; exact ⟨o, rfl, rfl⟩
+  | jump n c => cases c with
+    | none => cases h
+    | some p => cases h
+  | ret c => cases c with
+    | none => cases h
+    | some p => cases h
+  | _ => cases h
+
+
+end C10
+
+namespace C10
+open ExprScan ExprParse
+
+/-! ## an executable test for "this position is outside string literals and bracketed names" -/
+
+/-- `topLevelAt fuel k t`: reading `t` from its start — ordinary characters one by one, a string literal or a bracketed name
+as a whole (as the token patterns delimit them) — position `k` is reached exactly (it is not inside a literal). -/
+def topLevelAt : Nat → Nat → List Char → Bool
+  | _, 0, _ => true
+  | 0, _ + 1, _ => false
+  | _ + 1, _ + 1, [] => false
+  | f + 1, k + 1, c :: t =>
+    if c = '\'' ∨ c = '"' then
+      match strBody c t with
+      | some (raw, rest) => decide (raw.length + 1 ≤ k) && topLevelAt f (k - (raw.length + 1)) rest
+      | none => topLevelAt f k t
+    else if c = '[' then
+      match brTail t with
+      | some (_, rest) => decide (t.length - rest.length ≤ k) && topLevelAt f (k - (t.length - rest.length)) rest
+      | none => topLevelAt f k t
+    else topLevelAt f k t
+
+theorem split_prefix {α : Type} {a1 r L rest : List α} (h : a1 ++ r = L ++ rest) (hl : L.length ≤ a1.length) :
+    ∃ a2, a1 = L ++ a2 ∧ rest = a2 ++ r := by
+  rcases List.append_eq_append_iff.mp h with ⟨a', h1, h2⟩ | ⟨c', h1, h2⟩
+  · have : a'.length = 0 := by have := congrArg List.length h1; simp at this; omega
+    have : a' = [] := List.length_eq_zero_iff.mp this
+    subst this
+    exact ⟨[], by simpa using h1.symm, by simpa using h2.symm⟩
+  · exact ⟨c', h1, h2⟩
+
+/-- the test is sound: a position it accepts is a `Gap` site, for any blank runs put there -/
+theorem gap_of_topLevelAt (ws ws' q : List Char) : ∀ (f k : Nat) (t a : List Char), topLevelAt f k t = true →
+    t = a ++ (ws ++ q) → a.length = k → Gap ws ws' q t (a ++ (ws' ++ q)) := by
+  intro f
+  induction f with
+  | zero =>
+    intro k t a h ht hk
+    cases k with
+    | zero =>
+      have : a = [] := List.length_eq_zero_iff.mp hk
+      subst this; subst ht; exact Gap.site
+    | succ k => simp [topLevelAt] at h
+  | succ f ih =>
+    intro k t a h ht hk
+    cases k with
+    | zero =>
+      have : a = [] := List.length_eq_zero_iff.mp hk
+      subst this; subst ht; exact Gap.site
+    | succ k =>
+      cases a with
+      | nil => simp at hk
+      | cons c a1 =>
+        simp only [List.length_cons, Nat.add_right_cancel_iff] at hk
+        subst ht
+        simp only [List.cons_append, topLevelAt] at h ⊢
+        split at h
+        · rename_i hq
+          split at h
+          · rename_i raw rest hs
+            simp only [Bool.and_eq_true, decide_eq_true_eq] at h
+            have hx := (strBody_local c _ _ _ hs).1
+            obtain ⟨a2, ha, hrest⟩ := split_prefix (L := raw ++ [c]) (rest := rest) (by simpa using hx) (by simp; omega)
+            have hlen : a2.length = k - (raw.length + 1) := by
+              have := congrArg List.length ha; simp at this; omega
+            have := ih _ rest a2 h.2 hrest hlen
+            have hs' : strBody c (raw ++ c :: rest) = some (raw, rest) := by rw [← hx]; exact hs
+            have g := Gap.str c raw hq hs' this
+            rw [ha]; rw [hrest] at g; simpa using g
+          · rename_i hs
+            exact Gap.strFail c hq ((strBody_none_iff c _).mp hs) (ih _ _ a1 h rfl hk)
+        · rename_i hnq
+          split at h
+          · rename_i hb
+            subst hb
+            split at h
+            · rename_i nm rest hs
+              simp only [Bool.and_eq_true, decide_eq_true_eq] at h
+              obtain ⟨lit, _, hx, _⟩ := brTail_local _ _ _ hs
+              have hll : (a1 ++ (ws ++ q)).length - rest.length = lit.length := by
+                have := congrArg List.length hx; simp at this ⊢; omega
+              rw [hll] at h
+              obtain ⟨a2, ha, hrest⟩ := split_prefix (L := lit) (rest := rest) hx (by omega)
+              have hlen : a2.length = k - lit.length := by
+                have := congrArg List.length ha; simp at this; omega
+              have := ih _ rest a2 h.2 hrest hlen
+              have hs' : brTail (lit ++ rest) = some (nm, rest) := by rw [← hx]; exact hs
+              have g := Gap.br lit nm hs' this
+              rw [ha]; rw [hrest] at g; simpa using g
+            · rename_i hs
+              exact Gap.brFail hs (ih _ _ a1 h rfl hk)
+          · rename_i hnb
+            have hsp : special c = false := by
+              simp only [not_or] at hnq
+              simp [special, hnq.1, hnq.2, hnb]
+            exact Gap.cons c hsp (ih _ _ a1 h rfl hk)
+
+
 end C10
